@@ -1287,21 +1287,25 @@ Ltac ex_proj := cbn [ex_st ex_ids ex_stat ex_put ex_get ex_nwl ex_nrl ex_err
                      put_lead get_lead put_reqs get_reqs maxPutID maxGetID st_abuf st_numrecs st_mem
                      set_put set_get].
 
+Ltac ex_proj_in H := cbn [ex_st ex_ids ex_stat ex_put ex_get ex_nwl ex_nrl ex_err
+                     put_lead get_lead put_reqs get_reqs maxPutID maxGetID st_abuf st_numrecs st_mem
+                     set_put set_get] in H.
+
 Ltac fin5 := split; [assumption|split; [assumption|split; [reflexivity|split; reflexivity]]].
 
-Lemma extract_sides : forall st n ids hs stat0, nb_inv st ->
-  ex_err (extract_reqs st n ids hs stat0) = NC_NOERR ->
-  side_ok (put_lead st) (put_reqs st) (put_lead (ex_st (extract_reqs st n ids hs stat0)))
-          (put_reqs (ex_st (extract_reqs st n ids hs stat0)))
-          (ex_put (extract_reqs st n ids hs stat0)) (ex_nwl (extract_reqs st n ids hs stat0)) /\
-  side_ok (get_lead st) (get_reqs st) (get_lead (ex_st (extract_reqs st n ids hs stat0)))
-          (get_reqs (ex_st (extract_reqs st n ids hs stat0)))
-          (ex_get (extract_reqs st n ids hs stat0)) (ex_nrl (extract_reqs st n ids hs stat0)) /\
-  maxPutID (ex_st (extract_reqs st n ids hs stat0)) = maxPutID st /\
-  maxGetID (ex_st (extract_reqs st n ids hs stat0)) = maxGetID st /\
-  st_abuf (ex_st (extract_reqs st n ids hs stat0)) = st_abuf st.
+Lemma extract_sides : forall fx st n ids hs stat0, nb_inv st ->
+  ex_err (extract_reqs fx st n ids hs stat0) = NC_NOERR ->
+  side_ok (put_lead st) (put_reqs st) (put_lead (ex_st (extract_reqs fx st n ids hs stat0)))
+          (put_reqs (ex_st (extract_reqs fx st n ids hs stat0)))
+          (ex_put (extract_reqs fx st n ids hs stat0)) (ex_nwl (extract_reqs fx st n ids hs stat0)) /\
+  side_ok (get_lead st) (get_reqs st) (get_lead (ex_st (extract_reqs fx st n ids hs stat0)))
+          (get_reqs (ex_st (extract_reqs fx st n ids hs stat0)))
+          (ex_get (extract_reqs fx st n ids hs stat0)) (ex_nrl (extract_reqs fx st n ids hs stat0)) /\
+  maxPutID (ex_st (extract_reqs fx st n ids hs stat0)) = maxPutID st /\
+  maxGetID (ex_st (extract_reqs fx st n ids hs stat0)) = maxGetID st /\
+  st_abuf (ex_st (extract_reqs fx st n ids hs stat0)) = st_abuf st.
 Proof.
-  intros st n ids hs stat0 (Hp & Hg). unfold extract_reqs. cbv zeta.
+  intros fx st n ids hs stat0 (Hp & Hg). unfold extract_reqs. cbv zeta.
   pose proof (side_unchanged _ _ _ _ Hp) as HpU. pose proof (side_unchanged _ _ _ _ Hg) as HgU.
   pose proof (side_all _ _ _ _ _ Hp (flag_all_F2 _)) as HpA.
   pose proof (side_all _ _ _ _ _ Hg (flag_all_F2 _)) as HgA.
@@ -1311,16 +1315,16 @@ Proof.
   { intros _.
     destruct ((n =? NC_PUT_REQ_ALL) || (n =? NC_REQ_ALL)); destruct ((n =? NC_GET_REQ_ALL) || (n =? NC_REQ_ALL));
       ex_proj; fin5. }
-  destruct ((Zlen (get_reqs st) =? 0) && (n =? Zlen (put_lead st))) eqn:E1.
+  destruct ((Zlen (get_reqs st) =? 0) && (n =? Zlen (put_lead st)) && (negb fx || ids_in_order (put_lead st) ids n)) eqn:E1.
   { intros _. destruct hs; ex_proj; fin5. }
-  destruct ((Zlen (put_reqs st) =? 0) && (n =? Zlen (get_lead st))) eqn:E2.
+  destruct ((Zlen (put_reqs st) =? 0) && (n =? Zlen (get_lead st)) && (negb fx || ids_in_order (get_lead st) ids n)) eqn:E2.
   { intros _. destruct hs; ex_proj; fin5. }
-  destruct ((n =? Zlen (put_lead st) + Zlen (get_lead st)) && negb hs) eqn:E3.
+  destruct ((n =? Zlen (put_lead st) + Zlen (get_lead st)) && negb hs && negb fx) eqn:E3.
   { intros _. ex_proj. fin5. }
   destruct (ex_mark ids 0 hs (put_lead st) (get_lead st) stat0 0 0 0 0 NC_NOERR)
     as [[[[[[[pl1 gl1] stat1] nwl] nwr] nrl] nrr] err] eqn:Em.
   destruct (negb (err =? NC_NOERR)) eqn:Ee.
-  { ex_proj. intros Herr. lia. }
+  { destruct fx; ex_proj; intros Herr; lia. }
   assert (err = NC_NOERR) by lia. subst err.
   destruct (ex_mark_spec _ _ _ _ _ _ _ _ _ _ _ _ _ _ _ _ _ _ Em) as (_ & c1 & s1 & c2 & s2 & Hm1 & Hm2 & -> & -> & -> & ->).
   rewrite ex_copy_spec. cbv iota beta.
@@ -1383,11 +1387,11 @@ Qed.
 Lemma co_rel_F2_same : forall a b, Forall2 co_rel a b -> Forall2 lead_same a b.
 Proof. intros a b H. eapply w_F2_impl; [|exact H]. intros x y _ _ Hxy. apply co_rel_same in Hxy. apply Hxy. Qed.
 
-Theorem extract_leads_same : forall st n ids hs stat0,
-  Forall2 lead_same (put_lead st) (put_lead (ex_st (extract_reqs st n ids hs stat0))) /\
-  Forall2 lead_same (get_lead st) (get_lead (ex_st (extract_reqs st n ids hs stat0))).
+Theorem extract_leads_same : forall fx st n ids hs stat0,
+  Forall2 lead_same (put_lead st) (put_lead (ex_st (extract_reqs fx st n ids hs stat0))) /\
+  Forall2 lead_same (get_lead st) (get_lead (ex_st (extract_reqs fx st n ids hs stat0))).
 Proof.
-  intros st n ids hs stat0. unfold extract_reqs. cbv zeta.
+  intros fx st n ids hs stat0. unfold extract_reqs. cbv zeta.
   pose proof (F2_same_refl (put_lead st)) as HpU. pose proof (F2_same_refl (get_lead st)) as HgU.
   pose proof (flagged_of_same _ _ (flag_all_F2 (put_lead st))) as HpA.
   pose proof (flagged_of_same _ _ (flag_all_F2 (get_lead st))) as HgA.
@@ -1396,18 +1400,19 @@ Proof.
   destruct (n <? 0).
   { destruct ((n =? NC_PUT_REQ_ALL) || (n =? NC_REQ_ALL)); destruct ((n =? NC_GET_REQ_ALL) || (n =? NC_REQ_ALL));
       ex_proj; split; assumption. }
-  destruct ((Zlen (get_reqs st) =? 0) && (n =? Zlen (put_lead st))).
+  destruct ((Zlen (get_reqs st) =? 0) && (n =? Zlen (put_lead st)) && (negb fx || ids_in_order (put_lead st) ids n)).
   { destruct hs; ex_proj; split; assumption. }
-  destruct ((Zlen (put_reqs st) =? 0) && (n =? Zlen (get_lead st))).
+  destruct ((Zlen (put_reqs st) =? 0) && (n =? Zlen (get_lead st)) && (negb fx || ids_in_order (get_lead st) ids n)).
   { destruct hs; ex_proj; split; assumption. }
-  destruct ((n =? Zlen (put_lead st) + Zlen (get_lead st)) && negb hs).
+  destruct ((n =? Zlen (put_lead st) + Zlen (get_lead st)) && negb hs && negb fx).
   { ex_proj. split; assumption. }
   pose proof (ex_mark_same ids 0 hs (put_lead st) (get_lead st) stat0 0 0 0 0 NC_NOERR) as (Hm1 & Hm2).
   destruct (ex_mark ids 0 hs (put_lead st) (get_lead st) stat0 0 0 0 0 NC_NOERR)
     as [[[[[[[pl1 gl1] stat1] nwl] nwr] nrl] nrr] err] eqn:Em.
   cbn [fst snd] in Hm1, Hm2.
   destruct (negb (err =? NC_NOERR)).
-  { ex_proj. split; assumption. }
+  { destruct fx; ex_proj; [|split; assumption].
+    split; (eapply F2_same_trans; [eassumption|]); apply w_F2_map_r; intros l _; apply lead_same_set_flag. }
   rewrite ex_copy_spec. cbv iota beta.
   destruct (if nwr =? 0 then (pl1, put_reqs st) else coalesce_nonlead pl1 (put_reqs st) 0) as [pl2 pr2] eqn:Ep.
   destruct (if nrr =? 0 then (gl1, get_reqs st) else coalesce_nonlead gl1 (get_reqs st) 0) as [gl2 gr2] eqn:Eg.
@@ -1423,27 +1428,27 @@ Qed.
 (* ====================================================================== *)
 (* W2. the extracted non-lead requests are the slices of the flagged leads *)
 (* ====================================================================== *)
-Theorem extract_put_slices : forall st n ids hs stat0, nb_inv st ->
-  ex_err (extract_reqs st n ids hs stat0) = NC_NOERR ->
-  Permutation (ex_put (extract_reqs st n ids hs stat0))
+Theorem extract_put_slices : forall fx st n ids hs stat0, nb_inv st ->
+  ex_err (extract_reqs fx st n ids hs stat0) = NC_NOERR ->
+  Permutation (ex_put (extract_reqs fx st n ids hs stat0))
     (flat_map (fun p => if l_to_free (snd p) then lead_reqs (put_reqs st) (fst p) else [])
-              (zip (put_lead st) (put_lead (ex_st (extract_reqs st n ids hs stat0))))) /\
-  ex_nwl (extract_reqs st n ids hs stat0) = Zlen (flagged (put_lead (ex_st (extract_reqs st n ids hs stat0)))).
+              (zip (put_lead st) (put_lead (ex_st (extract_reqs fx st n ids hs stat0))))) /\
+  ex_nwl (extract_reqs fx st n ids hs stat0) = Zlen (flagged (put_lead (ex_st (extract_reqs fx st n ids hs stat0)))).
 Proof.
-  intros st n ids hs stat0 Hinv Herr.
-  destruct (extract_sides st n ids hs stat0 Hinv Herr) as ((_ & Hperm & Hn & _) & _).
+  intros fx st n ids hs stat0 Hinv Herr.
+  destruct (extract_sides fx st n ids hs stat0 Hinv Herr) as ((_ & Hperm & Hn & _) & _).
   split; [exact Hperm|exact Hn].
 Qed.
 
-Theorem extract_get_slices : forall st n ids hs stat0, nb_inv st ->
-  ex_err (extract_reqs st n ids hs stat0) = NC_NOERR ->
-  Permutation (ex_get (extract_reqs st n ids hs stat0))
+Theorem extract_get_slices : forall fx st n ids hs stat0, nb_inv st ->
+  ex_err (extract_reqs fx st n ids hs stat0) = NC_NOERR ->
+  Permutation (ex_get (extract_reqs fx st n ids hs stat0))
     (flat_map (fun p => if l_to_free (snd p) then lead_reqs (get_reqs st) (fst p) else [])
-              (zip (get_lead st) (get_lead (ex_st (extract_reqs st n ids hs stat0))))) /\
-  ex_nrl (extract_reqs st n ids hs stat0) = Zlen (flagged (get_lead (ex_st (extract_reqs st n ids hs stat0)))).
+              (zip (get_lead st) (get_lead (ex_st (extract_reqs fx st n ids hs stat0))))) /\
+  ex_nrl (extract_reqs fx st n ids hs stat0) = Zlen (flagged (get_lead (ex_st (extract_reqs fx st n ids hs stat0)))).
 Proof.
-  intros st n ids hs stat0 Hinv Herr.
-  destruct (extract_sides st n ids hs stat0 Hinv Herr) as (_ & (_ & Hperm & Hn & _) & _).
+  intros fx st n ids hs stat0 Hinv Herr.
+  destruct (extract_sides fx st n ids hs stat0 Hinv Herr) as (_ & (_ & Hperm & Hn & _) & _).
   split; [exact Hperm|exact Hn].
 Qed.
 
@@ -1523,43 +1528,43 @@ Proof.
   - rewrite <- Z2. apply Permutation_flat_map. apply Permutation_map. exact Hperm.
 Qed.
 
-Theorem wait_put_pairs : forall st n ids hs stat0, nb_inv st ->
-  ex_err (extract_reqs st n ids hs stat0) = NC_NOERR ->
-  Forall areq_wf (map (annotate (put_lead (ex_st (extract_reqs st n ids hs stat0))))
-                      (ex_put (extract_reqs st n ids hs stat0))) /\
-  Permutation (flat_map areq_pairs (map (annotate (put_lead (ex_st (extract_reqs st n ids hs stat0))))
-                                        (ex_put (extract_reqs st n ids hs stat0))))
-              (flat_map lead_pairs (flagged (put_lead (ex_st (extract_reqs st n ids hs stat0))))).
+Theorem wait_put_pairs : forall fx st n ids hs stat0, nb_inv st ->
+  ex_err (extract_reqs fx st n ids hs stat0) = NC_NOERR ->
+  Forall areq_wf (map (annotate (put_lead (ex_st (extract_reqs fx st n ids hs stat0))))
+                      (ex_put (extract_reqs fx st n ids hs stat0))) /\
+  Permutation (flat_map areq_pairs (map (annotate (put_lead (ex_st (extract_reqs fx st n ids hs stat0))))
+                                        (ex_put (extract_reqs fx st n ids hs stat0))))
+              (flat_map lead_pairs (flagged (put_lead (ex_st (extract_reqs fx st n ids hs stat0))))).
 Proof.
-  intros st n ids hs stat0 Hinv Herr.
-  destruct (extract_sides st n ids hs stat0 Hinv Herr) as (Hs & _).
+  intros fx st n ids hs stat0 Hinv Herr.
+  destruct (extract_sides fx st n ids hs stat0 Hinv Herr) as (Hs & _).
   destruct Hinv as (Hp & _). eapply pairs_of_side; eassumption.
 Qed.
 
-Theorem wait_get_pairs : forall st n ids hs stat0, nb_inv st ->
-  ex_err (extract_reqs st n ids hs stat0) = NC_NOERR ->
-  Forall areq_wf (map (annotate (get_lead (ex_st (extract_reqs st n ids hs stat0))))
-                      (ex_get (extract_reqs st n ids hs stat0))) /\
-  Permutation (flat_map areq_pairs (map (annotate (get_lead (ex_st (extract_reqs st n ids hs stat0))))
-                                        (ex_get (extract_reqs st n ids hs stat0))))
-              (flat_map lead_pairs (flagged (get_lead (ex_st (extract_reqs st n ids hs stat0))))).
+Theorem wait_get_pairs : forall fx st n ids hs stat0, nb_inv st ->
+  ex_err (extract_reqs fx st n ids hs stat0) = NC_NOERR ->
+  Forall areq_wf (map (annotate (get_lead (ex_st (extract_reqs fx st n ids hs stat0))))
+                      (ex_get (extract_reqs fx st n ids hs stat0))) /\
+  Permutation (flat_map areq_pairs (map (annotate (get_lead (ex_st (extract_reqs fx st n ids hs stat0))))
+                                        (ex_get (extract_reqs fx st n ids hs stat0))))
+              (flat_map lead_pairs (flagged (get_lead (ex_st (extract_reqs fx st n ids hs stat0))))).
 Proof.
-  intros st n ids hs stat0 Hinv Herr.
-  destruct (extract_sides st n ids hs stat0 Hinv Herr) as (_ & Hs & _).
+  intros fx st n ids hs stat0 Hinv Herr.
+  destruct (extract_sides fx st n ids hs stat0 Hinv Herr) as (_ & Hs & _).
   destruct Hinv as (_ & Hg). eapply pairs_of_side; eassumption.
 Qed.
 
 (* ====================================================================== *)
 (* W4. which leads get flagged                                             *)
 (* ====================================================================== *)
-Theorem extract_all_flags : forall st n ids hs stat0, nb_inv st -> n < 0 ->
-  ex_err (extract_reqs st n ids hs stat0) = NC_NOERR /\
-  (forall l', In l' (put_lead (ex_st (extract_reqs st n ids hs stat0))) ->
+Theorem extract_all_flags : forall fx st n ids hs stat0, nb_inv st -> n < 0 ->
+  ex_err (extract_reqs fx st n ids hs stat0) = NC_NOERR /\
+  (forall l', In l' (put_lead (ex_st (extract_reqs fx st n ids hs stat0))) ->
      (l_to_free l' = true <-> (n = NC_PUT_REQ_ALL \/ n = NC_REQ_ALL))) /\
-  (forall l', In l' (get_lead (ex_st (extract_reqs st n ids hs stat0))) ->
+  (forall l', In l' (get_lead (ex_st (extract_reqs fx st n ids hs stat0))) ->
      (l_to_free l' = true <-> (n = NC_GET_REQ_ALL \/ n = NC_REQ_ALL))).
 Proof.
-  intros st n ids hs stat0 ((_ & _ & _ & _ & Hpu) & (_ & _ & _ & _ & Hgu)) Hn.
+  intros fx st n ids hs stat0 ((_ & _ & _ & _ & Hpu) & (_ & _ & _ & _ & Hgu)) Hn.
   unfold extract_reqs. cbv zeta. destruct (n <? 0) eqn:E0; [|lia].
   rewrite Forall_forall in Hpu, Hgu.
   assert (Hfa : forall leads l', In l' (flag_all leads) -> l_to_free l' = true).
@@ -1582,11 +1587,8 @@ Definition no_shortcut (st : nbstate) (n : Z) : Prop :=
   ~ (Zlen (get_reqs st) = 0 /\ n = Zlen (put_lead st)) /\
   ~ (Zlen (put_reqs st) = 0 /\ n = Zlen (get_lead st)).
 
-(* the structure of the result on the subset path (the third shortcut needs statuses == NULL) *)
-Lemma subset_struct : forall st n ids hs stat0,
-  nb_inv st -> no_shortcut st n -> 0 <= n ->
-  (hs = true \/ n <> Zlen (put_lead st) + Zlen (get_lead st)) ->
-  ex_err (extract_reqs st n ids hs stat0) = NC_NOERR ->
+(* the result of the subset path (either variant) *)
+Definition subset_res (fx : bool) (st : nbstate) (n : Z) (ids : list Z) (hs : bool) (stat0 : list Z) : Prop :=
   exists pl1 gl1 stat1 c1 s1 c2 s2,
     ex_mark ids 0 hs (put_lead st) (get_lead st) stat0 0 0 0 0 NC_NOERR
       = (pl1, gl1, stat1, c1, s1, c2, s2, NC_NOERR) /\
@@ -1594,21 +1596,26 @@ Lemma subset_struct : forall st n ids hs stat0,
     mark_list selg ids 0 hs (get_lead st) = Some (gl1, c2, s2) /\
     pl1 = map (mark_lead selp ids 0 hs) (put_lead st) /\
     gl1 = map (mark_lead selg ids 0 hs) (get_lead st) /\
-    Forall2 co_rel pl1 (put_lead (ex_st (extract_reqs st n ids hs stat0))) /\
-    Forall2 co_rel gl1 (get_lead (ex_st (extract_reqs st n ids hs stat0))) /\
-    ex_ids (extract_reqs st n ids hs stat0) = map (reset_one pl1 gl1) ids /\
-    ex_stat (extract_reqs st n ids hs stat0) = stat1.
+    Forall2 co_rel pl1 (put_lead (ex_st (extract_reqs fx st n ids hs stat0))) /\
+    Forall2 co_rel gl1 (get_lead (ex_st (extract_reqs fx st n ids hs stat0))) /\
+    ex_ids (extract_reqs fx st n ids hs stat0) = map (reset_one pl1 gl1) ids /\
+    ex_stat (extract_reqs fx st n ids hs stat0) = stat1.
+
+(* when none of the shortcut conditions holds, a successful call went through the subset path *)
+Lemma subset_path_struct : forall fx st n ids hs stat0,
+  nb_inv st -> 0 <= n ->
+  (Zlen (get_reqs st) =? 0) && (n =? Zlen (put_lead st)) && (negb fx || ids_in_order (put_lead st) ids n) = false ->
+  (Zlen (put_reqs st) =? 0) && (n =? Zlen (get_lead st)) && (negb fx || ids_in_order (get_lead st) ids n) = false ->
+  (n =? Zlen (put_lead st) + Zlen (get_lead st)) && negb hs && negb fx = false ->
+  ex_err (extract_reqs fx st n ids hs stat0) = NC_NOERR ->
+  subset_res fx st n ids hs stat0.
 Proof.
-  intros st n ids hs stat0 (Hp & Hg) (Hns1 & Hns2) Hn Hhs. unfold extract_reqs. cbv zeta.
-  destruct (n <? 0) eqn:E0; [lia|].
-  destruct ((Zlen (get_reqs st) =? 0) && (n =? Zlen (put_lead st))) eqn:E1; [exfalso; apply Hns1; lia|].
-  destruct ((Zlen (put_reqs st) =? 0) && (n =? Zlen (get_lead st))) eqn:E2; [exfalso; apply Hns2; lia|].
-  destruct ((n =? Zlen (put_lead st) + Zlen (get_lead st)) && negb hs) eqn:E3.
-  { exfalso. destruct Hhs as [->|Hne]; [cbn [negb] in E3; rewrite andb_false_r in E3; discriminate|lia]. }
+  intros fx st n ids hs stat0 (Hp & Hg) Hn E1 E2 E3. unfold subset_res, extract_reqs. cbv zeta.
+  destruct (n <? 0) eqn:E0; [lia|]. rewrite E1, E2, E3.
   destruct (ex_mark ids 0 hs (put_lead st) (get_lead st) stat0 0 0 0 0 NC_NOERR)
     as [[[[[[[pl1 gl1] stat1] nwl] nwr] nrl] nrr] err] eqn:Em.
   destruct (negb (err =? NC_NOERR)) eqn:Ee.
-  { ex_proj. intros Herr. lia. }
+  { destruct fx; ex_proj; intros Herr; lia. }
   assert (err = NC_NOERR) by lia. subst err.
   destruct (ex_mark_spec _ _ _ _ _ _ _ _ _ _ _ _ _ _ _ _ _ _ Em) as (_ & c1 & s1 & c2 & s2 & Hm1 & Hm2 & -> & -> & -> & ->).
   rewrite ex_copy_spec. cbv iota beta.
@@ -1620,6 +1627,21 @@ Proof.
   destruct (side_subset _ _ _ _ _ _ _ _ _ _ _ _ _ Hp Hm1 Ep) as (_ & H1 & Hc1).
   destruct (side_subset _ _ _ _ _ _ _ _ _ _ _ _ _ Hg Hm2 Eg) as (_ & H2 & Hc2).
   exists pl1, gl1, stat1, c1, s1, c2, s2. repeat split; assumption.
+Qed.
+
+(* the unrepaired library (fx = false): the third shortcut needs statuses == NULL *)
+Lemma subset_struct : forall st n ids hs stat0,
+  nb_inv st -> no_shortcut st n -> 0 <= n ->
+  (hs = true \/ n <> Zlen (put_lead st) + Zlen (get_lead st)) ->
+  ex_err (extract_reqs false st n ids hs stat0) = NC_NOERR ->
+  subset_res false st n ids hs stat0.
+Proof.
+  intros st n ids hs stat0 Hinv (Hns1 & Hns2) Hn Hhs Herr.
+  apply subset_path_struct; try assumption; cbn [negb orb]; rewrite ?andb_true_r.
+  - destruct ((Zlen (get_reqs st) =? 0) && (n =? Zlen (put_lead st))) eqn:E1; [exfalso; apply Hns1; lia|reflexivity].
+  - destruct ((Zlen (put_reqs st) =? 0) && (n =? Zlen (get_lead st))) eqn:E2; [exfalso; apply Hns2; lia|reflexivity].
+  - destruct Hhs as [->|Hne]; [cbn [negb]; apply andb_false_r|].
+    destruct (n =? Zlen (put_lead st) + Zlen (get_lead st)) eqn:E; [lia|reflexivity].
 Qed.
 
 Lemma selp_put_id : forall x, Z.even x = true -> 0 <= x -> selp x = true.
@@ -1670,30 +1692,17 @@ Proof.
   destruct (Hwf l Hl) as (He & Hid & _). apply selg_get_id; assumption.
 Qed.
 
-Theorem subset_flags_gen : forall st n ids hs stat0,
-  nb_inv st -> no_shortcut st n -> 0 <= n ->
-  (hs = true \/ n <> Zlen (put_lead st) + Zlen (get_lead st)) ->
-  ex_err (extract_reqs st n ids hs stat0) = NC_NOERR ->
-  forall l', In l' (put_lead (ex_st (extract_reqs st n ids hs stat0)) ++
-                    get_lead (ex_st (extract_reqs st n ids hs stat0))) ->
+(* ---- consequences of subset_res, either variant ---- *)
+Lemma subset_res_flags : forall fx st n ids hs stat0, nb_inv st -> subset_res fx st n ids hs stat0 ->
+  forall l', In l' (put_lead (ex_st (extract_reqs fx st n ids hs stat0)) ++
+                    get_lead (ex_st (extract_reqs fx st n ids hs stat0))) ->
   (l_to_free l' = true <-> In (l_id l') ids).
 Proof.
-  intros st n ids hs stat0 Hinv Hns Hn Hhs Herr l' Hin.
-  destruct (subset_struct _ _ _ _ _ Hinv Hns Hn Hhs Herr)
-    as (pl1 & gl1 & stat1 & c1 & s1 & c2 & s2 & _ & _ & _ & -> & -> & Hc1 & Hc2 & _).
+  intros fx st n ids hs stat0 Hinv Hres l' Hin.
+  destruct Hres as (pl1 & gl1 & stat1 & c1 & s1 & c2 & s2 & _ & _ & _ & -> & -> & Hc1 & Hc2 & _).
   destruct Hinv as (Hp & Hg). apply in_app_or in Hin. destruct Hin as [Hin|Hin].
   - eapply side_flag_iff; [| |exact Hc1|exact Hin]; [apply Hp|eapply put_ids_sel; exact Hp].
   - eapply side_flag_iff; [| |exact Hc2|exact Hin]; [apply Hg|eapply get_ids_sel; exact Hg].
-Qed.
-
-Theorem subset_flags : forall st n ids stat0,
-  nb_inv st -> no_shortcut st n -> 0 <= n ->
-  ex_err (extract_reqs st n ids true stat0) = NC_NOERR ->
-  forall l', In l' (put_lead (ex_st (extract_reqs st n ids true stat0)) ++
-                    get_lead (ex_st (extract_reqs st n ids true stat0))) ->
-  (l_to_free l' = true <-> In (l_id l') ids).
-Proof.
-  intros st n ids stat0 Hinv Hns Hn Herr. eapply subset_flags_gen; try eassumption. left. reflexivity.
 Qed.
 
 Lemma side_status : forall sel leads ids leads2,
@@ -1712,18 +1721,14 @@ Proof.
   rewrite <- (lead_same_id _ _ Hs), mark_lead_id. split; [lia|exact Hz].
 Qed.
 
-(* the status pointer of a completed request is the slot of the position that names it *)
-Theorem status_own_partial : forall st n ids stat0,
-  nb_inv st -> no_shortcut st n -> 0 <= n ->
-  ex_err (extract_reqs st n ids true stat0) = NC_NOERR ->
-  forall l' i, In l' (put_lead (ex_st (extract_reqs st n ids true stat0)) ++
-                      get_lead (ex_st (extract_reqs st n ids true stat0))) ->
+Lemma subset_res_status : forall fx st n ids stat0, nb_inv st -> subset_res fx st n ids true stat0 ->
+  forall l' i, In l' (put_lead (ex_st (extract_reqs fx st n ids true stat0)) ++
+                      get_lead (ex_st (extract_reqs fx st n ids true stat0))) ->
   l_to_free l' = true -> l_status l' = Some i ->
   znth ids i NC_REQ_NULL = l_id l'.
 Proof.
-  intros st n ids stat0 Hinv Hns Hn Herr l' i Hin Hf Hst.
-  destruct (subset_struct _ _ _ _ _ Hinv Hns Hn (or_introl eq_refl) Herr)
-    as (pl1 & gl1 & stat1 & c1 & s1 & c2 & s2 & _ & _ & _ & -> & -> & Hc1 & Hc2 & _).
+  intros fx st n ids stat0 Hinv Hres l' i Hin Hf Hst.
+  destruct Hres as (pl1 & gl1 & stat1 & c1 & s1 & c2 & s2 & _ & _ & _ & -> & -> & Hc1 & Hc2 & _).
   destruct Hinv as (Hp & Hg). apply in_app_or in Hin. destruct Hin as [Hin|Hin].
   - eapply side_status; [|exact Hc1|exact Hin|exact Hf|exact Hst]. apply Hp.
   - eapply side_status; [|exact Hc2|exact Hin|exact Hf|exact Hst]. apply Hg.
@@ -1746,16 +1751,11 @@ Proof.
   rewrite Hsx, Hid, Z.eqb_refl. reflexivity.
 Qed.
 
-(* every named id is reset; NULL ids stay NULL *)
-Theorem subset_ids_reset_gen : forall st n ids hs stat0,
-  nb_inv st -> no_shortcut st n -> 0 <= n ->
-  (hs = true \/ n <> Zlen (put_lead st) + Zlen (get_lead st)) ->
-  ex_err (extract_reqs st n ids hs stat0) = NC_NOERR ->
-  forall i, 0 <= i < Zlen ids -> znth (ex_ids (extract_reqs st n ids hs stat0)) i 0 = NC_REQ_NULL.
+Lemma subset_res_ids : forall fx st n ids hs stat0, nb_inv st -> subset_res fx st n ids hs stat0 ->
+  forall i, 0 <= i < Zlen ids -> znth (ex_ids (extract_reqs fx st n ids hs stat0)) i 0 = NC_REQ_NULL.
 Proof.
-  intros st n ids hs stat0 Hinv Hns Hn Hhs Herr i Hi.
-  destruct (subset_struct _ _ _ _ _ Hinv Hns Hn Hhs Herr)
-    as (pl1 & gl1 & stat1 & c1 & s1 & c2 & s2 & _ & Hm1 & Hm2 & _ & _ & _ & _ & -> & _).
+  intros fx st n ids hs stat0 Hinv Hres i Hi.
+  destruct Hres as (pl1 & gl1 & stat1 & c1 & s1 & c2 & s2 & _ & Hm1 & Hm2 & _ & _ & _ & _ & -> & _).
   destruct Hinv as ((Hnd1 & _ & _ & _ & Hu1) & (Hnd2 & _ & _ & _ & Hu2)).
   rewrite (Proofs_Disk.znth_map _ _ _ 0 0 Hi).
   pose proof (Proofs_Disk.znth_In ids i 0 Hi) as Hin. set (x := znth ids i 0) in *.
@@ -1767,38 +1767,22 @@ Proof.
     unfold selg. rewrite En, Ep. reflexivity.
 Qed.
 
-Theorem subset_ids_reset : forall st n ids stat0,
-  nb_inv st -> no_shortcut st n -> 0 <= n ->
-  ex_err (extract_reqs st n ids true stat0) = NC_NOERR ->
-  forall i, 0 <= i < Zlen ids -> znth (ex_ids (extract_reqs st n ids true stat0)) i 0 = NC_REQ_NULL.
-Proof.
-  intros st n ids stat0 Hinv Hns Hn Herr. eapply subset_ids_reset_gen; try eassumption. left. reflexivity.
-Qed.
-
-Theorem subset_statuses : forall st n ids stat0,
-  nb_inv st -> no_shortcut st n -> 0 <= n ->
-  ex_err (extract_reqs st n ids true stat0) = NC_NOERR ->
+Lemma subset_res_stat : forall fx st n ids stat0, subset_res fx st n ids true stat0 ->
   forall i, 0 <= i < Zlen ids -> Zlen stat0 = Zlen ids ->
-  znth (ex_stat (extract_reqs st n ids true stat0)) i 0 = NC_NOERR.
+  znth (ex_stat (extract_reqs fx st n ids true stat0)) i 0 = NC_NOERR.
 Proof.
-  intros st n ids stat0 Hinv Hns Hn Herr i Hi Hlen.
-  destruct (subset_struct _ _ _ _ _ Hinv Hns Hn (or_introl eq_refl) Herr)
-    as (pl1 & gl1 & stat1 & c1 & s1 & c2 & s2 & Hm & _ & _ & _ & _ & _ & _ & _ & ->).
+  intros fx st n ids stat0 Hres i Hi Hlen.
+  destruct Hres as (pl1 & gl1 & stat1 & c1 & s1 & c2 & s2 & Hm & _ & _ & _ & _ & _ & _ & _ & ->).
   destruct (ex_mark_stat _ _ _ _ _ _ _ _ _ _ _ _ _ _ _ _ _ Hm ltac:(lia)) as (_ & Hin & _).
   apply Hin; lia.
 Qed.
 
-(* success of the subset path: every non-NULL id names a pending request and occurs once *)
-Theorem subset_ids_pending : forall st n ids hs stat0,
-  nb_inv st -> no_shortcut st n -> 0 <= n ->
-  (hs = true \/ n <> Zlen (put_lead st) + Zlen (get_lead st)) ->
-  ex_err (extract_reqs st n ids hs stat0) = NC_NOERR ->
+Lemma subset_res_pending : forall fx st n ids hs stat0, nb_inv st -> subset_res fx st n ids hs stat0 ->
   NoDup (filter (fun x => negb (x =? NC_REQ_NULL)) ids) /\
   forall x, In x ids -> x <> NC_REQ_NULL -> exists l, In l (put_lead st ++ get_lead st) /\ l_id l = x.
 Proof.
-  intros st n ids hs stat0 Hinv Hns Hn Hhs Herr.
-  destruct (subset_struct _ _ _ _ _ Hinv Hns Hn Hhs Herr)
-    as (pl1 & gl1 & stat1 & c1 & s1 & c2 & s2 & _ & Hm1 & Hm2 & _).
+  intros fx st n ids hs stat0 Hinv Hres.
+  destruct Hres as (pl1 & gl1 & stat1 & c1 & s1 & c2 & s2 & _ & Hm1 & Hm2 & _).
   destruct Hinv as ((Hnd1 & _) & (Hnd2 & _)).
   destruct (mark_list_pending _ _ _ _ _ _ _ _ Hnd1 Hm1) as (Hp1 & Hn1 & _).
   destruct (mark_list_pending _ _ _ _ _ _ _ _ Hnd2 Hm2) as (Hp2 & Hn2 & _).
@@ -1820,6 +1804,83 @@ Proof.
     + destruct (Hp2 x Hx) as (l & Hl & Hid & _).
       { unfold selg. rewrite Ep. destruct (x =? NC_REQ_NULL) eqn:En; [lia|reflexivity]. }
       exists l. split; [apply in_or_app; right; exact Hl|exact Hid].
+Qed.
+
+(* ---- fx = false: the unrepaired library ---- *)
+Theorem subset_flags_gen : forall st n ids hs stat0,
+  nb_inv st -> no_shortcut st n -> 0 <= n ->
+  (hs = true \/ n <> Zlen (put_lead st) + Zlen (get_lead st)) ->
+  ex_err (extract_reqs false st n ids hs stat0) = NC_NOERR ->
+  forall l', In l' (put_lead (ex_st (extract_reqs false st n ids hs stat0)) ++
+                    get_lead (ex_st (extract_reqs false st n ids hs stat0))) ->
+  (l_to_free l' = true <-> In (l_id l') ids).
+Proof.
+  intros st n ids hs stat0 Hinv Hns Hn Hhs Herr.
+  apply subset_res_flags; [exact Hinv|]. apply subset_struct; assumption.
+Qed.
+
+Theorem subset_flags : forall st n ids stat0,
+  nb_inv st -> no_shortcut st n -> 0 <= n ->
+  ex_err (extract_reqs false st n ids true stat0) = NC_NOERR ->
+  forall l', In l' (put_lead (ex_st (extract_reqs false st n ids true stat0)) ++
+                    get_lead (ex_st (extract_reqs false st n ids true stat0))) ->
+  (l_to_free l' = true <-> In (l_id l') ids).
+Proof.
+  intros st n ids stat0 Hinv Hns Hn Herr. eapply subset_flags_gen; try eassumption. left. reflexivity.
+Qed.
+
+(* the status pointer of a completed request is the slot of the position that names it *)
+Theorem status_own_partial : forall st n ids stat0,
+  nb_inv st -> no_shortcut st n -> 0 <= n ->
+  ex_err (extract_reqs false st n ids true stat0) = NC_NOERR ->
+  forall l' i, In l' (put_lead (ex_st (extract_reqs false st n ids true stat0)) ++
+                      get_lead (ex_st (extract_reqs false st n ids true stat0))) ->
+  l_to_free l' = true -> l_status l' = Some i ->
+  znth ids i NC_REQ_NULL = l_id l'.
+Proof.
+  intros st n ids stat0 Hinv Hns Hn Herr.
+  apply subset_res_status; [exact Hinv|]. apply subset_struct; try assumption. left. reflexivity.
+Qed.
+
+(* every named id is reset; NULL ids stay NULL *)
+Theorem subset_ids_reset_gen : forall st n ids hs stat0,
+  nb_inv st -> no_shortcut st n -> 0 <= n ->
+  (hs = true \/ n <> Zlen (put_lead st) + Zlen (get_lead st)) ->
+  ex_err (extract_reqs false st n ids hs stat0) = NC_NOERR ->
+  forall i, 0 <= i < Zlen ids -> znth (ex_ids (extract_reqs false st n ids hs stat0)) i 0 = NC_REQ_NULL.
+Proof.
+  intros st n ids hs stat0 Hinv Hns Hn Hhs Herr.
+  apply subset_res_ids; [exact Hinv|]. apply subset_struct; assumption.
+Qed.
+
+Theorem subset_ids_reset : forall st n ids stat0,
+  nb_inv st -> no_shortcut st n -> 0 <= n ->
+  ex_err (extract_reqs false st n ids true stat0) = NC_NOERR ->
+  forall i, 0 <= i < Zlen ids -> znth (ex_ids (extract_reqs false st n ids true stat0)) i 0 = NC_REQ_NULL.
+Proof.
+  intros st n ids stat0 Hinv Hns Hn Herr. eapply subset_ids_reset_gen; try eassumption. left. reflexivity.
+Qed.
+
+Theorem subset_statuses : forall st n ids stat0,
+  nb_inv st -> no_shortcut st n -> 0 <= n ->
+  ex_err (extract_reqs false st n ids true stat0) = NC_NOERR ->
+  forall i, 0 <= i < Zlen ids -> Zlen stat0 = Zlen ids ->
+  znth (ex_stat (extract_reqs false st n ids true stat0)) i 0 = NC_NOERR.
+Proof.
+  intros st n ids stat0 Hinv Hns Hn Herr.
+  apply subset_res_stat. apply subset_struct; try assumption. left. reflexivity.
+Qed.
+
+(* success of the subset path: every non-NULL id names a pending request and occurs once *)
+Theorem subset_ids_pending : forall st n ids hs stat0,
+  nb_inv st -> no_shortcut st n -> 0 <= n ->
+  (hs = true \/ n <> Zlen (put_lead st) + Zlen (get_lead st)) ->
+  ex_err (extract_reqs false st n ids hs stat0) = NC_NOERR ->
+  NoDup (filter (fun x => negb (x =? NC_REQ_NULL)) ids) /\
+  forall x, In x ids -> x <> NC_REQ_NULL -> exists l, In l (put_lead st ++ get_lead st) /\ l_id l = x.
+Proof.
+  intros st n ids hs stat0 Hinv Hns Hn Hhs Herr.
+  eapply subset_res_pending; [exact Hinv|]. apply subset_struct; eassumption.
 Qed.
 
 (* ====================================================================== *)
@@ -1955,25 +2016,25 @@ Proof.
 Qed.
 
 (* the structure of a successful wait_one *)
-Lemma wait_one_struct : forall sr ss st a file,
-  wr_rc (fst (wait_one sr ss st a file)) = NC_NOERR ->
-  ex_err (extract_reqs st (wa_n a) (wa_ids a) (wa_has_stat a) (wa_stat0 a)) = NC_NOERR /\
+Lemma wait_one_struct : forall sr ss fx st a file,
+  wr_rc (fst (wait_one sr ss fx st a file)) = NC_NOERR ->
+  ex_err (extract_reqs fx st (wa_n a) (wa_ids a) (wa_has_stat a) (wa_stat0 a)) = NC_NOERR /\
   exists st2,
-    put_lead st2 = put_lead (ex_st (extract_reqs st (wa_n a) (wa_ids a) (wa_has_stat a) (wa_stat0 a))) /\
-    put_reqs st2 = put_reqs (ex_st (extract_reqs st (wa_n a) (wa_ids a) (wa_has_stat a) (wa_stat0 a))) /\
-    get_lead st2 = get_lead (ex_st (extract_reqs st (wa_n a) (wa_ids a) (wa_has_stat a) (wa_stat0 a))) /\
-    get_reqs st2 = get_reqs (ex_st (extract_reqs st (wa_n a) (wa_ids a) (wa_has_stat a) (wa_stat0 a))) /\
-    maxPutID st2 = maxPutID (ex_st (extract_reqs st (wa_n a) (wa_ids a) (wa_has_stat a) (wa_stat0 a))) /\
-    maxGetID st2 = maxGetID (ex_st (extract_reqs st (wa_n a) (wa_ids a) (wa_has_stat a) (wa_stat0 a))) /\
-    wr_st (fst (wait_one sr ss st a file)) =
-      fst (commit_post st2 (ex_nwl (extract_reqs st (wa_n a) (wa_ids a) (wa_has_stat a) (wa_stat0 a)))
-                           (ex_nrl (extract_reqs st (wa_n a) (wa_ids a) (wa_has_stat a) (wa_stat0 a)))) /\
-    wr_ev (fst (wait_one sr ss st a file)) =
-      snd (commit_post st2 (ex_nwl (extract_reqs st (wa_n a) (wa_ids a) (wa_has_stat a) (wa_stat0 a)))
-                           (ex_nrl (extract_reqs st (wa_n a) (wa_ids a) (wa_has_stat a) (wa_stat0 a)))).
+    put_lead st2 = put_lead (ex_st (extract_reqs fx st (wa_n a) (wa_ids a) (wa_has_stat a) (wa_stat0 a))) /\
+    put_reqs st2 = put_reqs (ex_st (extract_reqs fx st (wa_n a) (wa_ids a) (wa_has_stat a) (wa_stat0 a))) /\
+    get_lead st2 = get_lead (ex_st (extract_reqs fx st (wa_n a) (wa_ids a) (wa_has_stat a) (wa_stat0 a))) /\
+    get_reqs st2 = get_reqs (ex_st (extract_reqs fx st (wa_n a) (wa_ids a) (wa_has_stat a) (wa_stat0 a))) /\
+    maxPutID st2 = maxPutID (ex_st (extract_reqs fx st (wa_n a) (wa_ids a) (wa_has_stat a) (wa_stat0 a))) /\
+    maxGetID st2 = maxGetID (ex_st (extract_reqs fx st (wa_n a) (wa_ids a) (wa_has_stat a) (wa_stat0 a))) /\
+    wr_st (fst (wait_one sr ss fx st a file)) =
+      fst (commit_post st2 (ex_nwl (extract_reqs fx st (wa_n a) (wa_ids a) (wa_has_stat a) (wa_stat0 a)))
+                           (ex_nrl (extract_reqs fx st (wa_n a) (wa_ids a) (wa_has_stat a) (wa_stat0 a)))) /\
+    wr_ev (fst (wait_one sr ss fx st a file)) =
+      snd (commit_post st2 (ex_nwl (extract_reqs fx st (wa_n a) (wa_ids a) (wa_has_stat a) (wa_stat0 a)))
+                           (ex_nrl (extract_reqs fx st (wa_n a) (wa_ids a) (wa_has_stat a) (wa_stat0 a)))).
 Proof.
-  intros sr ss st a file. unfold wait_one. cbv zeta.
-  set (ex := extract_reqs st (wa_n a) (wa_ids a) (wa_has_stat a) (wa_stat0 a)).
+  intros sr ss fx st a file. unfold wait_one. cbv zeta.
+  set (ex := extract_reqs fx st (wa_n a) (wa_ids a) (wa_has_stat a) (wa_stat0 a)).
   destruct (negb (ex_err ex =? NC_NOERR)) eqn:Ee.
   - cbn [fst wr_rc]. intros Hrc. lia.
   - intros _. split; [lia|].
@@ -1986,16 +2047,16 @@ Proof.
     cbn [fst snd wr_st wr_ev]. repeat split; assumption.
 Qed.
 
-Theorem wait_one_inv : forall sr ss st a file, nb_inv st ->
-  wr_rc (fst (wait_one sr ss st a file)) = NC_NOERR ->
-  nb_inv (wr_st (fst (wait_one sr ss st a file))).
+Theorem wait_one_inv : forall sr ss fx st a file, nb_inv st ->
+  wr_rc (fst (wait_one sr ss fx st a file)) = NC_NOERR ->
+  nb_inv (wr_st (fst (wait_one sr ss fx st a file))).
 Proof.
-  intros sr ss st a file Hinv Hrc.
-  destruct (wait_one_struct sr ss st a file Hrc) as (Herr & st2 & H1 & H2 & H3 & H4 & H5 & H6 & Hst & _).
-  destruct (extract_sides _ _ _ _ _ Hinv Herr) as (Hsp & Hsg & Hmp & Hmg & _).
+  intros sr ss fx st a file Hinv Hrc.
+  destruct (wait_one_struct sr ss fx st a file Hrc) as (Herr & st2 & H1 & H2 & H3 & H4 & H5 & H6 & Hst & _).
+  destruct (extract_sides _ _ _ _ _ _ Hinv Herr) as (Hsp & Hsg & Hmp & Hmg & _).
   rewrite Hst.
-  destruct (commit_post_fields st2 (ex_nwl (extract_reqs st (wa_n a) (wa_ids a) (wa_has_stat a) (wa_stat0 a)))
-              (ex_nrl (extract_reqs st (wa_n a) (wa_ids a) (wa_has_stat a) (wa_stat0 a))))
+  destruct (commit_post_fields st2 (ex_nwl (extract_reqs fx st (wa_n a) (wa_ids a) (wa_has_stat a) (wa_stat0 a)))
+              (ex_nrl (extract_reqs fx st (wa_n a) (wa_ids a) (wa_has_stat a) (wa_stat0 a))))
     as (Fp & Fg & Fmp & Fmg & _).
   rewrite H1, H2 in Fp. rewrite H3, H4 in Fg.
   destruct Hinv as (Hp & Hg).
@@ -2010,15 +2071,15 @@ Proof.
 Qed.
 
 (* the intermediate invariant, as a theorem about extract_reqs *)
-Theorem extract_mid_inv : forall st n ids hs stat0, nb_inv st ->
-  ex_err (extract_reqs st n ids hs stat0) = NC_NOERR ->
-  mid_inv true (maxPutID st) (put_lead (ex_st (extract_reqs st n ids hs stat0)))
-          (put_reqs (ex_st (extract_reqs st n ids hs stat0))) /\
-  mid_inv false (maxGetID st) (get_lead (ex_st (extract_reqs st n ids hs stat0)))
-          (get_reqs (ex_st (extract_reqs st n ids hs stat0))).
+Theorem extract_mid_inv : forall fx st n ids hs stat0, nb_inv st ->
+  ex_err (extract_reqs fx st n ids hs stat0) = NC_NOERR ->
+  mid_inv true (maxPutID st) (put_lead (ex_st (extract_reqs fx st n ids hs stat0)))
+          (put_reqs (ex_st (extract_reqs fx st n ids hs stat0))) /\
+  mid_inv false (maxGetID st) (get_lead (ex_st (extract_reqs fx st n ids hs stat0)))
+          (get_reqs (ex_st (extract_reqs fx st n ids hs stat0))).
 Proof.
-  intros st n ids hs stat0 Hinv Herr.
-  destruct (extract_sides _ _ _ _ _ Hinv Herr) as (Hsp & Hsg & _). destruct Hinv as (Hp & Hg).
+  intros fx st n ids hs stat0 Hinv Herr.
+  destruct (extract_sides _ _ _ _ _ _ Hinv Herr) as (Hsp & Hsg & _). destruct Hinv as (Hp & Hg).
   split; eapply side_mid; eassumption.
 Qed.
 
@@ -2058,27 +2119,27 @@ Proof.
   rewrite Forall_forall in Hcore. rewrite (Hcore l2 Hin), (Hr Hf2). reflexivity.
 Qed.
 
-Theorem wait_subset_frame_partial : forall sr ss st a file, nb_inv st ->
-  wr_rc (fst (wait_one sr ss st a file)) = NC_NOERR ->
+Theorem wait_subset_frame_partial : forall sr ss fx st a file, nb_inv st ->
+  wr_rc (fst (wait_one sr ss fx st a file)) = NC_NOERR ->
   forall l, In l (put_lead st ++ get_lead st) ->
-  (forall l1, In l1 (put_lead (ex_st (extract_reqs st (wa_n a) (wa_ids a) (wa_has_stat a) (wa_stat0 a))) ++
-                     get_lead (ex_st (extract_reqs st (wa_n a) (wa_ids a) (wa_has_stat a) (wa_stat0 a)))) ->
+  (forall l1, In l1 (put_lead (ex_st (extract_reqs fx st (wa_n a) (wa_ids a) (wa_has_stat a) (wa_stat0 a))) ++
+                     get_lead (ex_st (extract_reqs fx st (wa_n a) (wa_ids a) (wa_has_stat a) (wa_stat0 a)))) ->
               l_id l1 = l_id l -> l_to_free l1 = false) ->
-  exists l', In l' (put_lead (wr_st (fst (wait_one sr ss st a file))) ++
-                    get_lead (wr_st (fst (wait_one sr ss st a file)))) /\
+  exists l', In l' (put_lead (wr_st (fst (wait_one sr ss fx st a file))) ++
+                    get_lead (wr_st (fst (wait_one sr ss fx st a file)))) /\
     lead_same l l' /\ l_to_free l' = false /\
     map (fun q => (r_start q, r_count q, r_nelems q, r_xaddr q))
-        (lead_reqs (if Z.even (l_id l) then put_reqs (wr_st (fst (wait_one sr ss st a file)))
-                    else get_reqs (wr_st (fst (wait_one sr ss st a file)))) l') =
+        (lead_reqs (if Z.even (l_id l) then put_reqs (wr_st (fst (wait_one sr ss fx st a file)))
+                    else get_reqs (wr_st (fst (wait_one sr ss fx st a file)))) l') =
     map (fun q => (r_start q, r_count q, r_nelems q, r_xaddr q))
         (lead_reqs (if Z.even (l_id l) then put_reqs st else get_reqs st) l).
 Proof.
-  intros sr ss st a file Hinv Hrc l Hl Hnf.
-  destruct (wait_one_struct sr ss st a file Hrc) as (Herr & st2 & H1 & H2 & H3 & H4 & H5 & H6 & Hst & _).
-  destruct (extract_sides _ _ _ _ _ Hinv Herr) as (Hsp & Hsg & _).
+  intros sr ss fx st a file Hinv Hrc l Hl Hnf.
+  destruct (wait_one_struct sr ss fx st a file Hrc) as (Herr & st2 & H1 & H2 & H3 & H4 & H5 & H6 & Hst & _).
+  destruct (extract_sides _ _ _ _ _ _ Hinv Herr) as (Hsp & Hsg & _).
   rewrite Hst.
-  destruct (commit_post_fields st2 (ex_nwl (extract_reqs st (wa_n a) (wa_ids a) (wa_has_stat a) (wa_stat0 a)))
-              (ex_nrl (extract_reqs st (wa_n a) (wa_ids a) (wa_has_stat a) (wa_stat0 a))))
+  destruct (commit_post_fields st2 (ex_nwl (extract_reqs fx st (wa_n a) (wa_ids a) (wa_has_stat a) (wa_stat0 a)))
+              (ex_nrl (extract_reqs fx st (wa_n a) (wa_ids a) (wa_has_stat a) (wa_stat0 a))))
     as (Fp & Fg & _).
   rewrite H1, H2 in Fp. rewrite H3, H4 in Fg. symmetry in Fp, Fg.
   destruct Hinv as (Hp & Hg).
@@ -2098,19 +2159,19 @@ Proof.
 Qed.
 
 (* the leads of the state after a successful wait are the unflagged leads of the extraction *)
-Lemma wait_one_leads : forall sr ss st a file, nb_inv st ->
-  wr_rc (fst (wait_one sr ss st a file)) = NC_NOERR ->
-  put_lead (wr_st (fst (wait_one sr ss st a file))) =
-    kept (put_lead (ex_st (extract_reqs st (wa_n a) (wa_ids a) (wa_has_stat a) (wa_stat0 a)))) /\
-  get_lead (wr_st (fst (wait_one sr ss st a file))) =
-    kept (get_lead (ex_st (extract_reqs st (wa_n a) (wa_ids a) (wa_has_stat a) (wa_stat0 a)))).
+Lemma wait_one_leads : forall sr ss fx st a file, nb_inv st ->
+  wr_rc (fst (wait_one sr ss fx st a file)) = NC_NOERR ->
+  put_lead (wr_st (fst (wait_one sr ss fx st a file))) =
+    kept (put_lead (ex_st (extract_reqs fx st (wa_n a) (wa_ids a) (wa_has_stat a) (wa_stat0 a)))) /\
+  get_lead (wr_st (fst (wait_one sr ss fx st a file))) =
+    kept (get_lead (ex_st (extract_reqs fx st (wa_n a) (wa_ids a) (wa_has_stat a) (wa_stat0 a)))).
 Proof.
-  intros sr ss st a file Hinv Hrc.
-  destruct (wait_one_struct sr ss st a file Hrc) as (Herr & st2 & H1 & H2 & H3 & H4 & H5 & H6 & Hst & _).
-  destruct (extract_sides _ _ _ _ _ Hinv Herr) as (Hsp & Hsg & _).
+  intros sr ss fx st a file Hinv Hrc.
+  destruct (wait_one_struct sr ss fx st a file Hrc) as (Herr & st2 & H1 & H2 & H3 & H4 & H5 & H6 & Hst & _).
+  destruct (extract_sides _ _ _ _ _ _ Hinv Herr) as (Hsp & Hsg & _).
   rewrite Hst.
-  destruct (commit_post_fields st2 (ex_nwl (extract_reqs st (wa_n a) (wa_ids a) (wa_has_stat a) (wa_stat0 a)))
-              (ex_nrl (extract_reqs st (wa_n a) (wa_ids a) (wa_has_stat a) (wa_stat0 a))))
+  destruct (commit_post_fields st2 (ex_nwl (extract_reqs fx st (wa_n a) (wa_ids a) (wa_has_stat a) (wa_stat0 a)))
+              (ex_nrl (extract_reqs fx st (wa_n a) (wa_ids a) (wa_has_stat a) (wa_stat0 a))))
     as (Fp & Fg & _).
   rewrite H1, H2 in Fp. rewrite H3, H4 in Fg. symmetry in Fp, Fg.
   destruct Hinv as (Hp & Hg).
@@ -2121,36 +2182,36 @@ Proof.
   split; assumption.
 Qed.
 
-Theorem wait_nreqs : forall sr ss st a file, nb_inv st ->
-  wr_rc (fst (wait_one sr ss st a file)) = NC_NOERR ->
-  nreqs (wr_st (fst (wait_one sr ss st a file))) =
+Theorem wait_nreqs : forall sr ss fx st a file, nb_inv st ->
+  wr_rc (fst (wait_one sr ss fx st a file)) = NC_NOERR ->
+  nreqs (wr_st (fst (wait_one sr ss fx st a file))) =
     nreqs st
-    - Zlen (flagged (put_lead (ex_st (extract_reqs st (wa_n a) (wa_ids a) (wa_has_stat a) (wa_stat0 a)))))
-    - Zlen (flagged (get_lead (ex_st (extract_reqs st (wa_n a) (wa_ids a) (wa_has_stat a) (wa_stat0 a))))).
+    - Zlen (flagged (put_lead (ex_st (extract_reqs fx st (wa_n a) (wa_ids a) (wa_has_stat a) (wa_stat0 a)))))
+    - Zlen (flagged (get_lead (ex_st (extract_reqs fx st (wa_n a) (wa_ids a) (wa_has_stat a) (wa_stat0 a))))).
 Proof.
-  intros sr ss st a file Hinv Hrc.
-  destruct (wait_one_leads sr ss st a file Hinv Hrc) as (Ep & Eg).
-  destruct (extract_leads_same st (wa_n a) (wa_ids a) (wa_has_stat a) (wa_stat0 a)) as (Sp & Sg).
+  intros sr ss fx st a file Hinv Hrc.
+  destruct (wait_one_leads sr ss fx st a file Hinv Hrc) as (Ep & Eg).
+  destruct (extract_leads_same fx st (wa_n a) (wa_ids a) (wa_has_stat a) (wa_stat0 a)) as (Sp & Sg).
   unfold nreqs. rewrite Ep, Eg, (w_F2_len _ _ _ _ _ Sp), (w_F2_len _ _ _ _ _ Sg).
   unfold kept, flagged.
-  pose proof (w_Zlen_filter_split _ l_to_free (put_lead (ex_st (extract_reqs st (wa_n a) (wa_ids a) (wa_has_stat a) (wa_stat0 a))))).
-  pose proof (w_Zlen_filter_split _ l_to_free (get_lead (ex_st (extract_reqs st (wa_n a) (wa_ids a) (wa_has_stat a) (wa_stat0 a))))).
+  pose proof (w_Zlen_filter_split _ l_to_free (put_lead (ex_st (extract_reqs fx st (wa_n a) (wa_ids a) (wa_has_stat a) (wa_stat0 a))))).
+  pose proof (w_Zlen_filter_split _ l_to_free (get_lead (ex_st (extract_reqs fx st (wa_n a) (wa_ids a) (wa_has_stat a) (wa_stat0 a))))).
   lia.
 Qed.
 
 (* the ids of the completed requests do not occur in the queues any more *)
-Theorem wait_completed_gone : forall sr ss st a file, nb_inv st ->
-  wr_rc (fst (wait_one sr ss st a file)) = NC_NOERR ->
-  forall l2, In l2 (flagged (put_lead (ex_st (extract_reqs st (wa_n a) (wa_ids a) (wa_has_stat a) (wa_stat0 a)))) ++
-                    flagged (get_lead (ex_st (extract_reqs st (wa_n a) (wa_ids a) (wa_has_stat a) (wa_stat0 a))))) ->
-  ~ In (l_id l2) (map l_id (put_lead (wr_st (fst (wait_one sr ss st a file))) ++
-                            get_lead (wr_st (fst (wait_one sr ss st a file))))).
+Theorem wait_completed_gone : forall sr ss fx st a file, nb_inv st ->
+  wr_rc (fst (wait_one sr ss fx st a file)) = NC_NOERR ->
+  forall l2, In l2 (flagged (put_lead (ex_st (extract_reqs fx st (wa_n a) (wa_ids a) (wa_has_stat a) (wa_stat0 a)))) ++
+                    flagged (get_lead (ex_st (extract_reqs fx st (wa_n a) (wa_ids a) (wa_has_stat a) (wa_stat0 a))))) ->
+  ~ In (l_id l2) (map l_id (put_lead (wr_st (fst (wait_one sr ss fx st a file))) ++
+                            get_lead (wr_st (fst (wait_one sr ss fx st a file))))).
 Proof.
-  intros sr ss st a file Hinv Hrc l2 Hl2 Hin.
-  destruct (wait_one_leads sr ss st a file Hinv Hrc) as (Ep & Eg). rewrite Ep, Eg in Hin. clear Ep Eg.
-  destruct (extract_leads_same st (wa_n a) (wa_ids a) (wa_has_stat a) (wa_stat0 a)) as (Sp & Sg).
-  set (pl2 := put_lead (ex_st (extract_reqs st (wa_n a) (wa_ids a) (wa_has_stat a) (wa_stat0 a)))) in *.
-  set (gl2 := get_lead (ex_st (extract_reqs st (wa_n a) (wa_ids a) (wa_has_stat a) (wa_stat0 a)))) in *.
+  intros sr ss fx st a file Hinv Hrc l2 Hl2 Hin.
+  destruct (wait_one_leads sr ss fx st a file Hinv Hrc) as (Ep & Eg). rewrite Ep, Eg in Hin. clear Ep Eg.
+  destruct (extract_leads_same fx st (wa_n a) (wa_ids a) (wa_has_stat a) (wa_stat0 a)) as (Sp & Sg).
+  set (pl2 := put_lead (ex_st (extract_reqs fx st (wa_n a) (wa_ids a) (wa_has_stat a) (wa_stat0 a)))) in *.
+  set (gl2 := get_lead (ex_st (extract_reqs fx st (wa_n a) (wa_ids a) (wa_has_stat a) (wa_stat0 a)))) in *.
   destruct Hinv as ((Hndp & _ & _ & Hwfp & _) & (Hndg & _ & _ & Hwfg & _)).
   rewrite Forall_forall in Hwfp, Hwfg.
   assert (Hevp : forall x, In x pl2 -> Z.even (l_id x) = true).
@@ -2177,41 +2238,394 @@ Qed.
 (* ====================================================================== *)
 (* W7. events                                                              *)
 (* ====================================================================== *)
-Theorem wait_events_put : forall sr ss st a file, nb_inv st ->
-  wr_rc (fst (wait_one sr ss st a file)) = NC_NOERR ->
-  forall l', In l' (flagged (put_lead (ex_st (extract_reqs st (wa_n a) (wa_ids a) (wa_has_stat a) (wa_stat0 a))))) ->
-  In (EvPutDone (l_tag l')) (wr_ev (fst (wait_one sr ss st a file))).
+Theorem wait_events_put : forall sr ss fx st a file, nb_inv st ->
+  wr_rc (fst (wait_one sr ss fx st a file)) = NC_NOERR ->
+  forall l', In l' (flagged (put_lead (ex_st (extract_reqs fx st (wa_n a) (wa_ids a) (wa_has_stat a) (wa_stat0 a))))) ->
+  In (EvPutDone (l_tag l')) (wr_ev (fst (wait_one sr ss fx st a file))).
 Proof.
-  intros sr ss st a file Hinv Hrc l' Hl'.
-  destruct (wait_one_struct sr ss st a file Hrc) as (Herr & st2 & H1 & _ & _ & _ & _ & _ & _ & Hev).
-  destruct (extract_sides _ _ _ _ _ Hinv Herr) as ((_ & _ & Hnwl & _) & _).
-  destruct (commit_post_fields st2 (ex_nwl (extract_reqs st (wa_n a) (wa_ids a) (wa_has_stat a) (wa_stat0 a)))
-              (ex_nrl (extract_reqs st (wa_n a) (wa_ids a) (wa_has_stat a) (wa_stat0 a))))
+  intros sr ss fx st a file Hinv Hrc l' Hl'.
+  destruct (wait_one_struct sr ss fx st a file Hrc) as (Herr & st2 & H1 & _ & _ & _ & _ & _ & _ & Hev).
+  destruct (extract_sides _ _ _ _ _ _ Hinv Herr) as ((_ & _ & Hnwl & _) & _).
+  destruct (commit_post_fields st2 (ex_nwl (extract_reqs fx st (wa_n a) (wa_ids a) (wa_has_stat a) (wa_stat0 a)))
+              (ex_nrl (extract_reqs fx st (wa_n a) (wa_ids a) (wa_has_stat a) (wa_stat0 a))))
     as (_ & _ & _ & _ & Fev).
   rewrite Hev, Fev, H1. apply in_or_app. left.
-  assert (Hpos : 0 < Zlen (flagged (put_lead (ex_st (extract_reqs st (wa_n a) (wa_ids a) (wa_has_stat a) (wa_stat0 a)))))).
+  assert (Hpos : 0 < Zlen (flagged (put_lead (ex_st (extract_reqs fx st (wa_n a) (wa_ids a) (wa_has_stat a) (wa_stat0 a)))))).
   { apply w_Zlen_pos. intros E. rewrite E in Hl'. destruct Hl'. }
   rewrite Hnwl. clear Fev. match goal with |- context [if ?c then _ else _] => destruct c eqn:E end; [|lia].
   apply in_flat_map. exists l'. split; [exact Hl'|]. apply in_or_app. right. left. reflexivity.
 Qed.
 
-Theorem wait_events_get : forall sr ss st a file, nb_inv st ->
-  wr_rc (fst (wait_one sr ss st a file)) = NC_NOERR ->
-  forall l', In l' (flagged (get_lead (ex_st (extract_reqs st (wa_n a) (wa_ids a) (wa_has_stat a) (wa_stat0 a))))) ->
+Theorem wait_events_get : forall sr ss fx st a file, nb_inv st ->
+  wr_rc (fst (wait_one sr ss fx st a file)) = NC_NOERR ->
+  forall l', In l' (flagged (get_lead (ex_st (extract_reqs fx st (wa_n a) (wa_ids a) (wa_has_stat a) (wa_stat0 a))))) ->
   In (EvGetDone (l_tag l') (l_xaddr l') (l_nelems l' * g_xsz (l_geom l')) (l_status l'))
-     (wr_ev (fst (wait_one sr ss st a file))).
+     (wr_ev (fst (wait_one sr ss fx st a file))).
 Proof.
-  intros sr ss st a file Hinv Hrc l' Hl'.
-  destruct (wait_one_struct sr ss st a file Hrc) as (Herr & st2 & _ & _ & H3 & _ & _ & _ & _ & Hev).
-  destruct (extract_sides _ _ _ _ _ Hinv Herr) as (_ & (_ & _ & Hnrl & _) & _).
-  destruct (commit_post_fields st2 (ex_nwl (extract_reqs st (wa_n a) (wa_ids a) (wa_has_stat a) (wa_stat0 a)))
-              (ex_nrl (extract_reqs st (wa_n a) (wa_ids a) (wa_has_stat a) (wa_stat0 a))))
+  intros sr ss fx st a file Hinv Hrc l' Hl'.
+  destruct (wait_one_struct sr ss fx st a file Hrc) as (Herr & st2 & _ & _ & H3 & _ & _ & _ & _ & Hev).
+  destruct (extract_sides _ _ _ _ _ _ Hinv Herr) as (_ & (_ & _ & Hnrl & _) & _).
+  destruct (commit_post_fields st2 (ex_nwl (extract_reqs fx st (wa_n a) (wa_ids a) (wa_has_stat a) (wa_stat0 a)))
+              (ex_nrl (extract_reqs fx st (wa_n a) (wa_ids a) (wa_has_stat a) (wa_stat0 a))))
     as (_ & _ & _ & _ & Fev).
   rewrite Hev, Fev, H3. apply in_or_app. right.
-  assert (Hpos : 0 < Zlen (flagged (get_lead (ex_st (extract_reqs st (wa_n a) (wa_ids a) (wa_has_stat a) (wa_stat0 a)))))).
+  assert (Hpos : 0 < Zlen (flagged (get_lead (ex_st (extract_reqs fx st (wa_n a) (wa_ids a) (wa_has_stat a) (wa_stat0 a)))))).
   { apply w_Zlen_pos. intros E. rewrite E in Hl'. destruct Hl'. }
   rewrite Hnrl. clear Fev. match goal with |- context [if ?c then _ else _] => destruct c eqn:E end; [|lia].
   apply in_map_iff. exists l'. split; [reflexivity|exact Hl'].
+Qed.
+
+(* ====================================================================== *)
+(* F. fx = true: the repaired library (patches/F3_poison.diff)             *)
+(* ====================================================================== *)
+Lemma w_list_eqb_Z : forall a b, list_eqb Z.eqb a b = true <-> a = b.
+Proof.
+  induction a as [|x a IH]; intros b; destruct b as [|y b]; cbn [list_eqb]; split; intros H;
+    try reflexivity; try discriminate H.
+  - apply andb_true_iff in H. destruct H as (H1 & H2). apply IH in H2. assert (x = y) by lia. subst. reflexivity.
+  - inversion H; subst. rewrite Z.eqb_refl. cbn [andb]. apply IH. reflexivity.
+Qed.
+
+Lemma w_zfirstn_all : forall A (l : list A), zfirstn (Zlen l) l = l.
+Proof. intros A l. pose proof (w_zfirstn_app_exact _ l []) as H. rewrite app_nil_r in H. exact H. Qed.
+
+Lemma queue_reqs_nil : forall isput maxid leads reqs,
+  queue_inv isput maxid leads reqs -> Zlen reqs = 0 -> leads = [] /\ reqs = [].
+Proof.
+  intros isput maxid leads reqs (_ & _ & Hs & _) Hz. split; [|apply Proofs_Disk.Zlen_zero_nil; exact Hz].
+  destruct leads as [|l r]; [reflexivity|]. cbn [slices_ok] in Hs. destruct Hs as (_ & Hpos & Hle & _). lia.
+Qed.
+
+Lemma ids_in_order_eq : forall leads ids, ids_in_order leads ids (Zlen ids) = true -> ids = map l_id leads.
+Proof.
+  intros leads ids H. unfold ids_in_order in H. rewrite w_zfirstn_all in H. apply w_list_eqb_Z. exact H.
+Qed.
+
+(* B1. a successful call either went through the subset path or took shortcut 1 / 2 with req_ids
+   naming the whole queue in queue order (and the other queue empty) *)
+Definition short_put (st : nbstate) (ids : list Z) (hs : bool) (stat0 : list Z) (ex : extracted) : Prop :=
+  get_lead st = [] /\ get_reqs st = [] /\ ids = map l_id (put_lead st) /\
+  put_lead (ex_st ex) = (if hs then flag_all_status (put_lead st) 0 else flag_all (put_lead st)) /\
+  get_lead (ex_st ex) = [] /\ ex_ids ex = all_null ids /\
+  ex_stat ex = (if hs then noerr_prefix stat0 (Zlen (put_lead st)) else stat0).
+Definition short_get (st : nbstate) (ids : list Z) (hs : bool) (stat0 : list Z) (ex : extracted) : Prop :=
+  put_lead st = [] /\ put_reqs st = [] /\ ids = map l_id (get_lead st) /\
+  get_lead (ex_st ex) = (if hs then flag_all_status (get_lead st) 0 else flag_all (get_lead st)) /\
+  put_lead (ex_st ex) = [] /\ ex_ids ex = all_null ids /\
+  ex_stat ex = (if hs then noerr_prefix stat0 (Zlen (get_lead st)) else stat0).
+
+Lemma fixed_struct : forall st n ids hs stat0,
+  nb_inv st -> 0 <= n -> n = Zlen ids ->
+  ex_err (extract_reqs true st n ids hs stat0) = NC_NOERR ->
+  subset_res true st n ids hs stat0 \/
+  short_put st ids hs stat0 (extract_reqs true st n ids hs stat0) \/
+  short_get st ids hs stat0 (extract_reqs true st n ids hs stat0).
+Proof.
+  intros st n ids hs stat0 Hinv Hn Hlen Herr.
+  destruct ((Zlen (get_reqs st) =? 0) && (n =? Zlen (put_lead st)) &&
+            (negb true || ids_in_order (put_lead st) ids n)) eqn:E1.
+  { right. left. clear Herr. pose proof E1 as E1'. cbn [negb orb] in E1'.
+    apply andb_true_iff in E1'. destruct E1' as (E1a & Hord). apply andb_true_iff in E1a. destruct E1a as (Hz & Hnp).
+    destruct Hinv as (_ & Hg). destruct (queue_reqs_nil _ _ _ _ Hg ltac:(lia)) as (Hgl & Hgr).
+    rewrite Hlen in Hord. apply ids_in_order_eq in Hord.
+    unfold short_put, extract_reqs. cbv zeta. destruct (n <? 0) eqn:E0; [lia|]. rewrite E1.
+    destruct hs; ex_proj; repeat split; assumption || reflexivity. }
+  destruct ((Zlen (put_reqs st) =? 0) && (n =? Zlen (get_lead st)) &&
+            (negb true || ids_in_order (get_lead st) ids n)) eqn:E2.
+  { right. right. clear Herr. pose proof E2 as E2'. cbn [negb orb] in E2'.
+    apply andb_true_iff in E2'. destruct E2' as (E2a & Hord). apply andb_true_iff in E2a. destruct E2a as (Hz & Hnp).
+    destruct Hinv as (Hp & _). destruct (queue_reqs_nil _ _ _ _ Hp ltac:(lia)) as (Hpl & Hpr).
+    rewrite Hlen in Hord. apply ids_in_order_eq in Hord.
+    unfold short_get, extract_reqs. cbv zeta. destruct (n <? 0) eqn:E0; [lia|]. rewrite E1, E2.
+    destruct hs; ex_proj; repeat split; assumption || reflexivity. }
+  left. apply subset_path_struct; try assumption. cbn [negb]. apply andb_false_r.
+Qed.
+
+Lemma flagged_of_facts : forall leads leads2 l', Forall2 flagged_of leads leads2 -> In l' leads2 ->
+  l_to_free l' = true /\ In (l_id l') (map l_id leads).
+Proof.
+  intros leads leads2 l' HF Hin. destruct (w_F2_In_r _ _ _ _ _ _ HF Hin) as (l & Hl & (stt & ->)).
+  split; [reflexivity|]. change (l_id (l_set_flag l true stt)) with (l_id l). apply in_map. exact Hl.
+Qed.
+
+Lemma short_flagged_of : forall leads (hs : bool),
+  Forall2 flagged_of leads (if hs then flag_all_status leads 0 else flag_all leads).
+Proof. intros leads hs. destruct hs; [apply flag_all_status_F2|apply flag_all_F2]. Qed.
+
+(* B2 *)
+Theorem subset_flags_fixed : forall st n ids hs stat0,
+  nb_inv st -> 0 <= n -> n = Zlen ids ->
+  ex_err (extract_reqs true st n ids hs stat0) = NC_NOERR ->
+  forall l', In l' (put_lead (ex_st (extract_reqs true st n ids hs stat0)) ++
+                    get_lead (ex_st (extract_reqs true st n ids hs stat0))) ->
+  (l_to_free l' = true <-> In (l_id l') ids).
+Proof.
+  intros st n ids hs stat0 Hinv Hn Hlen Herr l' Hin.
+  destruct (fixed_struct _ _ _ _ _ Hinv Hn Hlen Herr) as [Hres|[Hs|Hs]].
+  - eapply subset_res_flags; eassumption.
+  - destruct Hs as (_ & _ & Hids & Hpl2 & Hgl2 & _). rewrite Hpl2, Hgl2, app_nil_r in Hin.
+    destruct (flagged_of_facts _ _ _ (short_flagged_of _ hs) Hin) as (Hf & Hid).
+    rewrite Hids. split; intros _; assumption.
+  - destruct Hs as (_ & _ & Hids & Hgl2 & Hpl2 & _). rewrite Hpl2, Hgl2 in Hin. cbn [app] in Hin.
+    destruct (flagged_of_facts _ _ _ (short_flagged_of _ hs) Hin) as (Hf & Hid).
+    rewrite Hids. split; intros _; assumption.
+Qed.
+
+Lemma short_status : forall leads l' i, In l' (flag_all_status leads 0) -> l_status l' = Some i ->
+  znth (map l_id leads) i NC_REQ_NULL = l_id l'.
+Proof.
+  intros leads l' i Hin Hst. destruct (flag_all_status_nth _ _ _ _ Hin Hst) as (Hi & Hid).
+  replace (i - 0) with i in Hid by lia.
+  rewrite (Proofs_Disk.znth_map l_id leads i dummy_lead NC_REQ_NULL) by lia. exact Hid.
+Qed.
+
+(* B3 *)
+Theorem status_own_fixed : forall st n ids stat0,
+  nb_inv st -> 0 <= n -> n = Zlen ids ->
+  ex_err (extract_reqs true st n ids true stat0) = NC_NOERR ->
+  forall l' i, In l' (put_lead (ex_st (extract_reqs true st n ids true stat0)) ++
+                      get_lead (ex_st (extract_reqs true st n ids true stat0))) ->
+  l_to_free l' = true -> l_status l' = Some i ->
+  znth ids i NC_REQ_NULL = l_id l'.
+Proof.
+  intros st n ids stat0 Hinv Hn Hlen Herr l' i Hin Hf Hst.
+  destruct (fixed_struct _ _ _ _ _ Hinv Hn Hlen Herr) as [Hres|[Hs|Hs]].
+  - eapply subset_res_status; eassumption.
+  - destruct Hs as (_ & _ & Hids & Hpl2 & Hgl2 & _). rewrite Hpl2, Hgl2, app_nil_r in Hin.
+    rewrite Hids. apply short_status; assumption.
+  - destruct Hs as (_ & _ & Hids & Hgl2 & Hpl2 & _). rewrite Hpl2, Hgl2 in Hin. cbn [app] in Hin.
+    rewrite Hids. apply short_status; assumption.
+Qed.
+
+(* B4 *)
+Theorem ids_reset_fixed : forall st n ids hs stat0,
+  nb_inv st -> 0 <= n -> n = Zlen ids ->
+  ex_err (extract_reqs true st n ids hs stat0) = NC_NOERR ->
+  forall i, 0 <= i < Zlen ids -> znth (ex_ids (extract_reqs true st n ids hs stat0)) i 0 = NC_REQ_NULL.
+Proof.
+  intros st n ids hs stat0 Hinv Hn Hlen Herr i Hi.
+  destruct (fixed_struct _ _ _ _ _ Hinv Hn Hlen Herr) as [Hres|[Hs|Hs]].
+  - eapply subset_res_ids; eassumption.
+  - destruct Hs as (_ & _ & _ & _ & _ & He & _). rewrite He. unfold all_null.
+    rewrite (Proofs_Disk.znth_map _ _ _ 0 0 Hi). reflexivity.
+  - destruct Hs as (_ & _ & _ & _ & _ & He & _). rewrite He. unfold all_null.
+    rewrite (Proofs_Disk.znth_map _ _ _ 0 0 Hi). reflexivity.
+Qed.
+
+Lemma noerr_prefix_nth : forall stat k i, 0 <= i < k -> i < Zlen stat -> znth (noerr_prefix stat k) i 0 = NC_NOERR.
+Proof.
+  induction stat as [|x r IH]; intros k i Hi Hl.
+  - rewrite Proofs_Disk.Zlen_nil in Hl. lia.
+  - rewrite Proofs_Disk.Zlen_cons in Hl. cbn [noerr_prefix]. destruct (k >? 0) eqn:E; [|lia].
+    cbn [znth]. destruct (i =? 0) eqn:E0; [reflexivity|]. apply IH; lia.
+Qed.
+
+Theorem statuses_fixed : forall st n ids stat0,
+  nb_inv st -> 0 <= n -> n = Zlen ids ->
+  ex_err (extract_reqs true st n ids true stat0) = NC_NOERR ->
+  Zlen stat0 = Zlen ids ->
+  forall i, 0 <= i < Zlen ids -> znth (ex_stat (extract_reqs true st n ids true stat0)) i 0 = NC_NOERR.
+Proof.
+  intros st n ids stat0 Hinv Hn Hlen Herr Hsl i Hi.
+  destruct (fixed_struct _ _ _ _ _ Hinv Hn Hlen Herr) as [Hres|[Hs|Hs]].
+  - eapply subset_res_stat; eassumption.
+  - destruct Hs as (_ & _ & Hids & _ & _ & _ & He). rewrite He.
+    assert (Zlen ids = Zlen (put_lead st)) by (rewrite Hids at 1; apply Proofs_Disk.Zlen_map).
+    apply noerr_prefix_nth; lia.
+  - destruct Hs as (_ & _ & Hids & _ & _ & _ & He). rewrite He.
+    assert (Zlen ids = Zlen (get_lead st)) by (rewrite Hids at 1; apply Proofs_Disk.Zlen_map).
+    apply noerr_prefix_nth; lia.
+Qed.
+
+Theorem ids_pending_fixed : forall st n ids hs stat0,
+  nb_inv st -> 0 <= n -> n = Zlen ids ->
+  ex_err (extract_reqs true st n ids hs stat0) = NC_NOERR ->
+  forall x, In x ids -> x <> NC_REQ_NULL -> exists l, In l (put_lead st ++ get_lead st) /\ l_id l = x.
+Proof.
+  intros st n ids hs stat0 Hinv Hn Hlen Herr x Hx Hne.
+  destruct (fixed_struct _ _ _ _ _ Hinv Hn Hlen Herr) as [Hres|[Hs|Hs]].
+  - eapply (subset_res_pending _ _ _ _ _ _ Hinv Hres); eassumption.
+  - destruct Hs as (_ & _ & Hids & _). rewrite Hids in Hx. apply in_map_iff in Hx.
+    destruct Hx as (l & Hid & Hl). exists l. split; [apply in_or_app; left; exact Hl|exact Hid].
+  - destruct Hs as (_ & _ & Hids & _). rewrite Hids in Hx. apply in_map_iff in Hx.
+    destruct Hx as (l & Hid & Hl). exists l. split; [apply in_or_app; right; exact Hl|exact Hid].
+Qed.
+
+(* ---- B5. failed calls leave the queues as they were (flags and status pointers cleared) ---- *)
+Definition flagrel (l l1 : lead) : Prop := exists tf stt, l1 = l_set_flag l tf stt.
+
+Lemma flagrel_refl : forall l, flagrel l l.
+Proof. intros l. exists (l_to_free l), (l_status l). destruct l; reflexivity. Qed.
+
+Lemma flagrel_trans : forall a b c, flagrel a b -> flagrel b c -> flagrel a c.
+Proof. intros a b c (tf1 & s1 & ->) (tf2 & s2 & ->). exists tf2, s2. reflexivity. Qed.
+
+Lemma F2_flagrel_refl : forall a, Forall2 flagrel a a.
+Proof. intros a. apply w_F2_refl. intros x _. apply flagrel_refl. Qed.
+
+Lemma F2_flagrel_trans : forall a b c, Forall2 flagrel a b -> Forall2 flagrel b c -> Forall2 flagrel a c.
+Proof.
+  intros a b c H1 H2. eapply w_F2_impl; [|exact (w_F2_trans _ _ _ _ _ _ _ _ H1 H2)].
+  intros x z _ _ (y & _ & Hxy & Hyz). eapply flagrel_trans; eassumption.
+Qed.
+
+Lemma flag_first_flagrel : forall ll x stt ll' n, flag_first ll x stt = Some (ll', n) -> Forall2 flagrel ll ll'.
+Proof.
+  induction ll as [|l r IH]; intros x stt ll' n H; cbn [flag_first] in H; [discriminate|].
+  destruct (negb (l_to_free l) && (l_id l =? x)).
+  - inversion H; subst. constructor; [exists true, stt; reflexivity|apply F2_flagrel_refl].
+  - destruct (flag_first r x stt) as [[r' n']|] eqn:Er; [|discriminate]. inversion H; subst.
+    constructor; [apply flagrel_refl|]. eapply IH. exact Er.
+Qed.
+
+Lemma ex_mark_flagrel : forall ids i hs pl gl stat nwl nwr nrl nrr err,
+  Forall2 flagrel pl (fst (fst (fst (fst (fst (fst (fst (ex_mark ids i hs pl gl stat nwl nwr nrl nrr err)))))))) /\
+  Forall2 flagrel gl (snd (fst (fst (fst (fst (fst (fst (ex_mark ids i hs pl gl stat nwl nwr nrl nrr err)))))))).
+Proof.
+  induction ids as [|x r IH]; intros i hs pl gl stat nwl nwr nrl nrr err; cbn [ex_mark].
+  - cbn [fst snd]. split; apply F2_flagrel_refl.
+  - destruct (x =? NC_REQ_NULL); [apply IH|].
+    destruct (Z.rem x 2 =? 0).
+    + destruct (flag_first pl x (if hs then Some i else None)) as [[pl' n]|] eqn:Ef; [|apply IH].
+      pose proof (flag_first_flagrel _ _ _ _ _ Ef) as Hs.
+      match goal with |- context [ex_mark r ?a ?b ?c ?d ?e ?f ?g ?h ?k ?m] =>
+        destruct (IH a b c d e f g h k m) as (I1 & I2) end.
+      split; [eapply F2_flagrel_trans; eassumption|exact I2].
+    + destruct (flag_first gl x (if hs then Some i else None)) as [[gl' n]|] eqn:Ef; [|apply IH].
+      pose proof (flag_first_flagrel _ _ _ _ _ Ef) as Hs.
+      match goal with |- context [ex_mark r ?a ?b ?c ?d ?e ?f ?g ?h ?k ?m] =>
+        destruct (IH a b c d e f g h k m) as (I1 & I2) end.
+      split; [exact I1|eapply F2_flagrel_trans; eassumption].
+Qed.
+
+Lemma flagrel_unflag : forall a b, Forall2 flagrel a b -> map unflag b = map unflag a.
+Proof.
+  intros a b H. induction H as [|x y a b (tf & stt & ->) H IH]; [reflexivity|].
+  cbn [map]. rewrite IH. reflexivity.
+Qed.
+
+Theorem failed_extract_fixed : forall st n ids hs stat0, nb_inv st ->
+  ex_err (extract_reqs true st n ids hs stat0) <> NC_NOERR ->
+  put_lead (ex_st (extract_reqs true st n ids hs stat0)) = map unflag (put_lead st) /\
+  get_lead (ex_st (extract_reqs true st n ids hs stat0)) = map unflag (get_lead st) /\
+  put_reqs (ex_st (extract_reqs true st n ids hs stat0)) = put_reqs st /\
+  get_reqs (ex_st (extract_reqs true st n ids hs stat0)) = get_reqs st /\
+  maxPutID (ex_st (extract_reqs true st n ids hs stat0)) = maxPutID st /\
+  maxGetID (ex_st (extract_reqs true st n ids hs stat0)) = maxGetID st /\
+  ex_ids (extract_reqs true st n ids hs stat0) = ids.
+Proof.
+  intros st n ids hs stat0 _. unfold extract_reqs. cbv zeta.
+  destruct (n <? 0).
+  { ex_proj. intros H. exfalso. apply H. reflexivity. }
+  destruct ((Zlen (get_reqs st) =? 0) && (n =? Zlen (put_lead st)) && (negb true || ids_in_order (put_lead st) ids n)).
+  { ex_proj. intros H. exfalso. apply H. reflexivity. }
+  destruct ((Zlen (put_reqs st) =? 0) && (n =? Zlen (get_lead st)) && (negb true || ids_in_order (get_lead st) ids n)).
+  { ex_proj. intros H. exfalso. apply H. reflexivity. }
+  destruct ((n =? Zlen (put_lead st) + Zlen (get_lead st)) && negb hs && negb true).
+  { ex_proj. intros H. exfalso. apply H. reflexivity. }
+  pose proof (ex_mark_flagrel ids 0 hs (put_lead st) (get_lead st) stat0 0 0 0 0 NC_NOERR) as (Hm1 & Hm2).
+  destruct (ex_mark ids 0 hs (put_lead st) (get_lead st) stat0 0 0 0 0 NC_NOERR)
+    as [[[[[[[pl1 gl1] stat1] nwl] nwr] nrl] nrr] err] eqn:Em.
+  cbn [fst snd] in Hm1, Hm2.
+  destruct (negb (err =? NC_NOERR)).
+  - ex_proj. intros _. rewrite (flagrel_unflag _ _ Hm1), (flagrel_unflag _ _ Hm2). repeat split; reflexivity.
+  - rewrite ex_copy_spec. cbv iota beta.
+    destruct (if nwr =? 0 then (pl1, put_reqs st) else coalesce_nonlead pl1 (put_reqs st) 0) as [pl2 pr2].
+    destruct (if nrr =? 0 then (gl1, get_reqs st) else coalesce_nonlead gl1 (get_reqs st) 0) as [gl2 gr2].
+    ex_proj. intros H. exfalso. apply H. reflexivity.
+Qed.
+
+Lemma slices_ok_map : forall (f : lead -> lead) leads reqs k i,
+  (forall l, l_nonlead_off (f l) = l_nonlead_off l /\ l_nonlead_num (f l) = l_nonlead_num l) ->
+  slices_ok leads reqs k i -> slices_ok (map f leads) reqs k i.
+Proof.
+  intros f leads reqs k i Hf. revert k i. induction leads as [|l r IH]; intros k i H; cbn [map slices_ok] in *; [exact H|].
+  destruct (Hf l) as (Ho & Hn). rewrite Ho, Hn. destruct H as (H1 & H2 & H3 & H4 & H5).
+  repeat split; try assumption. apply IH. exact H5.
+Qed.
+
+Lemma queue_inv_unflag : forall isput maxid leads reqs,
+  queue_inv isput maxid leads reqs -> queue_inv isput maxid (map unflag leads) reqs.
+Proof.
+  intros isput maxid leads reqs (Hnd & Hmax & Hs & Hwf & Hunf).
+  split; [rewrite map_map; exact Hnd|]. split; [|split; [|split]].
+  - apply Forall_forall. intros l' Hl'. apply in_map_iff in Hl'. destruct Hl' as (l & <- & Hl).
+    rewrite Forall_forall in Hmax. apply (Hmax l Hl).
+  - apply slices_ok_map; [|exact Hs]. intros l. split; reflexivity.
+  - apply Forall_forall. intros l' Hl'. apply in_map_iff in Hl'. destruct Hl' as (l & <- & Hl).
+    rewrite Forall_forall in Hwf. specialize (Hwf l Hl). rewrite lead_wf_is_seg in *.
+    eapply lead_wf_seg_indep; [apply (lead_same_set_flag l false None)|reflexivity|exact Hwf].
+  - apply Forall_forall. intros l' Hl'. apply in_map_iff in Hl'. destruct Hl' as (l & <- & Hl). reflexivity.
+Qed.
+
+Theorem unflag_inv : forall st, nb_inv st ->
+  nb_inv (set_get (set_put st (map unflag (put_lead st)) (put_reqs st)) (map unflag (get_lead st)) (get_reqs st)).
+Proof.
+  intros st (Hp & Hg). unfold nb_inv. ex_proj. split; apply queue_inv_unflag; assumption.
+Qed.
+
+Lemma wait_one_failed_struct : forall sr ss fx st a file,
+  wr_rc (fst (wait_one sr ss fx st a file)) <> NC_NOERR ->
+  ex_err (extract_reqs fx st (wa_n a) (wa_ids a) (wa_has_stat a) (wa_stat0 a)) <> NC_NOERR /\
+  wr_st (fst (wait_one sr ss fx st a file)) = ex_st (extract_reqs fx st (wa_n a) (wa_ids a) (wa_has_stat a) (wa_stat0 a)) /\
+  wr_ev (fst (wait_one sr ss fx st a file)) = [] /\
+  snd (wait_one sr ss fx st a file) = file.
+Proof.
+  intros sr ss fx st a file. unfold wait_one. cbv zeta.
+  set (ex := extract_reqs fx st (wa_n a) (wa_ids a) (wa_has_stat a) (wa_stat0 a)).
+  destruct (negb (ex_err ex =? NC_NOERR)) eqn:Ee.
+  - cbn [fst snd wr_rc wr_st wr_ev]. intros _. repeat split. lia.
+  - destruct (commit_io sr ss (ex_st ex) (ex_put ex) (ex_get ex) (0 <? Zlen (ex_put ex))
+                (0 <? Zlen (ex_get ex)) (newnumrecs_loop (ex_st ex)) file) as [st2 file'].
+    destruct (commit_post st2 (ex_nwl ex) (ex_nrl ex)) as [st3 ev].
+    cbn [fst wr_rc]. intros H. exfalso. apply H. reflexivity.
+Qed.
+
+Theorem wait_one_failed_fixed : forall sr ss st a file, nb_inv st ->
+  wr_rc (fst (wait_one sr ss true st a file)) <> NC_NOERR ->
+  snd (wait_one sr ss true st a file) = file /\
+  wr_ev (fst (wait_one sr ss true st a file)) = [] /\
+  put_lead (wr_st (fst (wait_one sr ss true st a file))) = map unflag (put_lead st) /\
+  get_lead (wr_st (fst (wait_one sr ss true st a file))) = map unflag (get_lead st) /\
+  put_reqs (wr_st (fst (wait_one sr ss true st a file))) = put_reqs st /\
+  get_reqs (wr_st (fst (wait_one sr ss true st a file))) = get_reqs st.
+Proof.
+  intros sr ss st a file Hinv Hrc.
+  destruct (wait_one_failed_struct _ _ _ _ _ _ Hrc) as (Herr & Hst & Hev & Hf).
+  destruct (failed_extract_fixed _ _ _ _ _ Hinv Herr) as (H1 & H2 & H3 & H4 & _).
+  rewrite Hst. repeat split; assumption.
+Qed.
+
+(* a wait of the repaired library ALWAYS leaves a state satisfying the invariant *)
+Theorem wait_one_inv_fixed : forall sr ss st a file, nb_inv st ->
+  nb_inv (wr_st (fst (wait_one sr ss true st a file))).
+Proof.
+  intros sr ss st a file Hinv.
+  destruct (Z.eq_dec (wr_rc (fst (wait_one sr ss true st a file))) NC_NOERR) as [Hrc|Hrc].
+  - apply wait_one_inv; assumption.
+  - destruct (wait_one_failed_struct _ _ _ _ _ _ Hrc) as (Herr & Hst & _).
+    destruct (failed_extract_fixed _ _ _ _ _ Hinv Herr) as (H1 & H2 & H3 & H4 & H5 & H6 & _).
+    rewrite Hst. pose proof (unflag_inv st Hinv) as Hu. unfold nb_inv in *. ex_proj_in Hu.
+    rewrite H1, H2, H3, H4, H5, H6. exact Hu.
+Qed.
+
+(* B6 *)
+Theorem wait_subset_frame_fixed : forall sr ss st a file, nb_inv st ->
+  0 <= wa_n a -> wa_n a = Zlen (wa_ids a) ->
+  wr_rc (fst (wait_one sr ss true st a file)) = NC_NOERR ->
+  forall l, In l (put_lead st ++ get_lead st) -> ~ In (l_id l) (wa_ids a) ->
+  exists l', In l' (put_lead (wr_st (fst (wait_one sr ss true st a file))) ++
+                    get_lead (wr_st (fst (wait_one sr ss true st a file)))) /\
+             lead_same l l' /\ l_to_free l' = false.
+Proof.
+  intros sr ss st a file Hinv Hn Hlen Hrc l Hl Hnot.
+  destruct (wait_one_struct sr ss true st a file Hrc) as (Herr & _).
+  destruct (wait_subset_frame_partial sr ss true st a file Hinv Hrc l Hl) as (l' & Hin & Hs & Hf & _).
+  - intros l1 Hl1 Hid.
+    pose proof (subset_flags_fixed _ _ _ _ _ Hinv Hn Hlen Herr l1 Hl1) as Hiff.
+    destruct (l_to_free l1) eqn:E; [|reflexivity].
+    exfalso. apply Hnot. rewrite <- Hid. apply Hiff. reflexivity.
+  - exists l'. split; [exact Hin|]. split; [exact Hs|exact Hf].
 Qed.
 
 (* ====================================================================== *)
@@ -2249,7 +2663,7 @@ Qed.
 (* W2, W3, W5 (all paths): wait for the second put and the get, with statuses *)
 Example w_xs3_subset_hyps :
   nb_inv w_xs3 /\ no_shortcut w_xs3 2 /\ 0 <= 2 /\
-  ex_err (extract_reqs w_xs3 2 [2; 1] true [7; 7]) = NC_NOERR.
+  ex_err (extract_reqs false w_xs3 2 [2; 1] true [7; 7]) = NC_NOERR.
 Proof.
   split; [exact w_xs3_inv|]. split; [|split; [lia|vm_compute; reflexivity]].
   unfold no_shortcut. vm_compute. split; intros (H & _); discriminate H.
@@ -2257,17 +2671,17 @@ Qed.
 
 (* ... what W4 says about it: ids reset, statuses NC_NOERR, status pointers own their slot *)
 Example w_xs3_subset_result :
-  ex_ids (extract_reqs w_xs3 2 [2; 1] true [7; 7]) = [NC_REQ_NULL; NC_REQ_NULL] /\
-  ex_stat (extract_reqs w_xs3 2 [2; 1] true [7; 7]) = [NC_NOERR; NC_NOERR] /\
-  map (fun l => (l_id l, l_to_free l, l_status l)) (put_lead (ex_st (extract_reqs w_xs3 2 [2; 1] true [7; 7])))
+  ex_ids (extract_reqs false w_xs3 2 [2; 1] true [7; 7]) = [NC_REQ_NULL; NC_REQ_NULL] /\
+  ex_stat (extract_reqs false w_xs3 2 [2; 1] true [7; 7]) = [NC_NOERR; NC_NOERR] /\
+  map (fun l => (l_id l, l_to_free l, l_status l)) (put_lead (ex_st (extract_reqs false w_xs3 2 [2; 1] true [7; 7])))
     = [(0, false, None); (2, true, Some 0)] /\
-  map (fun l => (l_id l, l_to_free l, l_status l)) (get_lead (ex_st (extract_reqs w_xs3 2 [2; 1] true [7; 7])))
+  map (fun l => (l_id l, l_to_free l, l_status l)) (get_lead (ex_st (extract_reqs false w_xs3 2 [2; 1] true [7; 7])))
     = [(1, true, Some 1)].
 Proof. vm_compute. repeat split; reflexivity. Qed.
 
 (* an id that occurs twice, or names no pending request, makes the subset path fail *)
-Example w_xs3_subset_dup : ex_err (extract_reqs w_xs3 2 [2; 2] true [7; 7]) = NC_EINVAL_REQUEST /\
-                         ex_err (extract_reqs w_xs3 1 [4] true [7]) = NC_EINVAL_REQUEST.
+Example w_xs3_subset_dup : ex_err (extract_reqs false w_xs3 2 [2; 2] true [7; 7]) = NC_EINVAL_REQUEST /\
+                         ex_err (extract_reqs false w_xs3 1 [4] true [7]) = NC_EINVAL_REQUEST.
 Proof. vm_compute. split; reflexivity. Qed.
 
 (* W4, ALL path *)
@@ -2277,36 +2691,36 @@ Proof. split; [exact w_xs3_inv|unfold NC_PUT_REQ_ALL; lia]. Qed.
 (* W5, W6, W7: a wait that completes the second put only; the first put and the get stay *)
 Definition w_xwa : waitargs := mkwa 1 [2] true [7].
 Example w_xs3_wait_hyps :
-  nb_inv w_xs3 /\ wr_rc (fst (wait_one isort_reqs isort_segs w_xs3 w_xwa empty_disk)) = NC_NOERR /\
-  (forall l1, In l1 (put_lead (ex_st (extract_reqs w_xs3 (wa_n w_xwa) (wa_ids w_xwa) (wa_has_stat w_xwa) (wa_stat0 w_xwa))) ++
-                     get_lead (ex_st (extract_reqs w_xs3 (wa_n w_xwa) (wa_ids w_xwa) (wa_has_stat w_xwa) (wa_stat0 w_xwa)))) ->
+  nb_inv w_xs3 /\ wr_rc (fst (wait_one isort_reqs isort_segs false w_xs3 w_xwa empty_disk)) = NC_NOERR /\
+  (forall l1, In l1 (put_lead (ex_st (extract_reqs false w_xs3 (wa_n w_xwa) (wa_ids w_xwa) (wa_has_stat w_xwa) (wa_stat0 w_xwa))) ++
+                     get_lead (ex_st (extract_reqs false w_xs3 (wa_n w_xwa) (wa_ids w_xwa) (wa_has_stat w_xwa) (wa_stat0 w_xwa)))) ->
      l_id l1 = 0 -> l_to_free l1 = false) /\
-  map l_id (flagged (put_lead (ex_st (extract_reqs w_xs3 (wa_n w_xwa) (wa_ids w_xwa) (wa_has_stat w_xwa) (wa_stat0 w_xwa))))) = [2].
+  map l_id (flagged (put_lead (ex_st (extract_reqs false w_xs3 (wa_n w_xwa) (wa_ids w_xwa) (wa_has_stat w_xwa) (wa_stat0 w_xwa))))) = [2].
 Proof.
   split; [exact w_xs3_inv|]. split; [vm_compute; reflexivity|]. split; [|vm_compute; reflexivity].
   intros l1 Hin Hid.
-  w_lit (put_lead (ex_st (extract_reqs w_xs3 (wa_n w_xwa) (wa_ids w_xwa) (wa_has_stat w_xwa) (wa_stat0 w_xwa)))).
-  w_lit (get_lead (ex_st (extract_reqs w_xs3 (wa_n w_xwa) (wa_ids w_xwa) (wa_has_stat w_xwa) (wa_stat0 w_xwa)))).
+  w_lit (put_lead (ex_st (extract_reqs false w_xs3 (wa_n w_xwa) (wa_ids w_xwa) (wa_has_stat w_xwa) (wa_stat0 w_xwa)))).
+  w_lit (get_lead (ex_st (extract_reqs false w_xs3 (wa_n w_xwa) (wa_ids w_xwa) (wa_has_stat w_xwa) (wa_stat0 w_xwa)))).
   cbn [app In] in Hin.
   destruct Hin as [<-|[<-|[<-|[]]]]; cbn in Hid |- *; try reflexivity; discriminate Hid.
 Qed.
 
 Example w_xs3_wait_result :
-  map l_id (put_lead (wr_st (fst (wait_one isort_reqs isort_segs w_xs3 w_xwa empty_disk)))) = [0] /\
-  map l_id (get_lead (wr_st (fst (wait_one isort_reqs isort_segs w_xs3 w_xwa empty_disk)))) = [1] /\
-  wr_ev (fst (wait_one isort_reqs isort_segs w_xs3 w_xwa empty_disk)) = [EvPutDone 3] /\
-  nreqs (wr_st (fst (wait_one isort_reqs isort_segs w_xs3 w_xwa empty_disk))) = 2.
+  map l_id (put_lead (wr_st (fst (wait_one isort_reqs isort_segs false w_xs3 w_xwa empty_disk)))) = [0] /\
+  map l_id (get_lead (wr_st (fst (wait_one isort_reqs isort_segs false w_xs3 w_xwa empty_disk)))) = [1] /\
+  wr_ev (fst (wait_one isort_reqs isort_segs false w_xs3 w_xwa empty_disk)) = [EvPutDone 3] /\
+  nreqs (wr_st (fst (wait_one isort_reqs isort_segs false w_xs3 w_xwa empty_disk))) = 2.
 Proof. vm_compute. repeat split; reflexivity. Qed.
 
 (* the theorems applied to the examples *)
-Example w_xs3_wait_inv : nb_inv (wr_st (fst (wait_one isort_reqs isort_segs w_xs3 w_xwa empty_disk))).
+Example w_xs3_wait_inv : nb_inv (wr_st (fst (wait_one isort_reqs isort_segs false w_xs3 w_xwa empty_disk))).
 Proof. apply wait_one_inv; apply w_xs3_wait_hyps. Qed.
 
 Example w_xs3_put_pairs :
   Permutation
-    (flat_map areq_pairs (map (annotate (put_lead (ex_st (extract_reqs w_xs3 2 [2; 1] true [7; 7]))))
-                              (ex_put (extract_reqs w_xs3 2 [2; 1] true [7; 7]))))
-    (flat_map lead_pairs (flagged (put_lead (ex_st (extract_reqs w_xs3 2 [2; 1] true [7; 7]))))).
+    (flat_map areq_pairs (map (annotate (put_lead (ex_st (extract_reqs false w_xs3 2 [2; 1] true [7; 7]))))
+                              (ex_put (extract_reqs false w_xs3 2 [2; 1] true [7; 7]))))
+    (flat_map lead_pairs (flagged (put_lead (ex_st (extract_reqs false w_xs3 2 [2; 1] true [7; 7]))))).
 Proof. apply wait_put_pairs; apply w_xs3_subset_hyps. Qed.
 
 (* why status_own is `_partial`: on the "same as NC_PUT_REQ_ALL" shortcut (no pending get, n = number
@@ -2316,11 +2730,11 @@ Definition w_xp2 : nbstate :=
   fst (fst (post_varm w_xs1 KIput w_xg [2;0;0] [1;1;2] (Some [1;1;2]) 7000 [] false 3)).
 Example status_own_shortcut_counterexample :
   nb_inv w_xp2 /\ ~ no_shortcut w_xp2 2 /\
-  ex_err (extract_reqs w_xp2 2 [2; 0] true [7; 7]) = NC_NOERR /\
-  map (fun l => (l_id l, l_to_free l, l_status l)) (put_lead (ex_st (extract_reqs w_xp2 2 [2; 0] true [7; 7])))
+  ex_err (extract_reqs false w_xp2 2 [2; 0] true [7; 7]) = NC_NOERR /\
+  map (fun l => (l_id l, l_to_free l, l_status l)) (put_lead (ex_st (extract_reqs false w_xp2 2 [2; 0] true [7; 7])))
     = [(0, true, Some 0); (2, true, Some 1)] /\
-  ex_err (extract_reqs w_xp2 2 [8; 8] true [7; 7]) = NC_NOERR /\
-  ex_ids (extract_reqs w_xp2 2 [8; 8] true [7; 7]) = [NC_REQ_NULL; NC_REQ_NULL].
+  ex_err (extract_reqs false w_xp2 2 [8; 8] true [7; 7]) = NC_NOERR /\
+  ex_ids (extract_reqs false w_xp2 2 [8; 8] true [7; 7]) = [NC_REQ_NULL; NC_REQ_NULL].
 Proof.
   split.
   { unfold nb_inv, queue_inv.
